@@ -2,8 +2,19 @@
     (store = unit, [cfg_nc]: what [labrea.cache.disabled()] computes), for ALL user code and ALL
     option dictionaries, by induction over expressions of stated fragments.
 
-    Part 1: results ([rs]) and logs ([lg]) of reference-instance computations as pure functions,
-    and one unfolding equation per (interpreter, constructor). *)
+    Part 1  results ([rs]) and logs ([lg]) of reference-instance computations as pure functions
+    Part 2  values: induction, "no deferred failure with a bad cause inside" ([vgood])
+    Part 3  calling values preserves goodness
+    Part 4  the fragment family [fragP p] (one boolean predicate, switches in [fopts]) and its
+            induction principle [fragP_ind]
+    Part 5  [guard_main]: validate passing => evaluate cannot fail for a missing option (fragment pG)
+    Part 6  the same on the observed functions ([validate_nc], [eval_nc]); witnesses D20, D4
+    Part 7  result-level combinators and ONE result-level equation per (interpreter, constructor)
+            ([V_*], [K_*], [X_*], [E_*])
+    Part 8  [ev_clean]: successful evaluations hold no deferred failure (fragment pC)
+    Part 9  [runs_only_choosers]: validate/keys/explain run user code only inside evaluations of
+            chooser-position sub-expressions (EVERY expression)
+    The theorems about explain (C11) and the three-way agreement (C10, Part G) are in C11Proofs.v. *)
 From Coq Require Import List NArith ZArith Bool Lia.
 Import ListNotations.
 From LV Require Import Model.Base Model.Template Model.Eval Model.Derived Model.EvalRun.
@@ -437,7 +448,11 @@ Record fopts := {
   f_domdflt : bool;      (* an Option with a default declaring a domain *)
   f_presets : bool;      (* EWith with a non-empty pre-set dictionary *)
   f_partialbind : bool;  (* EBind whose function is partial (no otherwise branch) *)
-  f_alloptions : bool    (* EAllOptions *)
+  f_alloptions : bool;   (* EAllOptions *)
+  f_domexpr : bool;      (* an Option's domain may be any expression; otherwise a constant only *)
+  f_untyped : bool       (* function positions (the function of an Apply / a call, case conditions,
+                            effect callbacks, a constant domain) may hold anything; otherwise only
+                            expressions that are callables by their syntax *)
 }.
 
 Definition vclean : value -> bool := vgood (fun _ => true).
@@ -448,20 +463,45 @@ Definition is_forcer (fn : expr) : bool :=
   | _ => false
   end.
 
+(** callables by syntax: user functions (not the builtins list/tuple/dict), partial applications
+    of them, compositions of such *)
+Definition builtin (f : N) : bool := N.eqb f B_LIST || N.eqb f B_TUPLE || N.eqb f B_DICT.
+Fixpoint ufun (v : value) : bool :=
+  match v with
+  | VF f pre post =>
+      if N.eqb f B_COMPOSE then (fix go (l : list value) : bool := match l with [] => true | x :: l' => ufun x && go l' end) pre
+      else negb (builtin f)
+  | _ => false
+  end.
+Definition basefn (f : expr) : bool :=
+  match f with EValue (VF fid _ _) => negb (builtin fid) && negb (N.eqb fid B_COMPOSE) | _ => false end.
+Fixpoint fnexprb (e : expr) : bool :=
+  match e with
+  | EValue v => ufun v
+  | ECall true f _ _ => basefn f
+  | EPipe steps => (fix go (l : list expr) : bool := match l with [] => true | x :: l' => fnexprb x && go l' end) steps
+  | _ => false
+  end.
+Definition domval (d : value) : bool := match d with VF _ _ _ => ufun d | _ => true end.
+
+Definition dom_ok (p : fopts) (de : expr) : bool :=
+  f_domexpr p || match de with EValue d => vclean d && (f_untyped p || domval d) | _ => false end.
+Definition tyfn (p : fopts) (fn : expr) : bool := f_untyped p || fnexprb fn.
+
 Fixpoint fragP (p : fopts) (e : expr) : bool :=
   match e with
   | EValue v => vclean v
   | EOption k dflt dom =>
       match dflt with
-      | None => match dom with None => true | Some _ => f_dom p end
-      | Some d => fragP p d && match dom with None => true | Some _ => f_domdflt p end
+      | None => match dom with None => true | Some de => f_dom p && dom_ok p de end
+      | Some d => fragP p d && match dom with None => true | Some de => f_domdflt p && dom_ok p de end
       end
   | EApply src fn =>
       match src with
       | EIter es =>
-          if f_lazy p then forallb (fragP p) es && fragP p fn
+          if f_lazy p then forallb (fragP p) es && fragP p fn && tyfn p fn
           else is_forcer fn && forallb (fragP p) es
-      | _ => fragP p src && fragP p fn
+      | _ => fragP p src && fragP p fn && tyfn p fn
       end
   | EBind src tbl dflt =>
       fragP p src && forallb (fun ve => fragP p (snd ve)) tbl &&
@@ -471,15 +511,19 @@ Fixpoint fragP (p : fopts) (e : expr) : bool :=
       match dflt with Some d => fragP p d | None => true end
   | ECase disp cases dflt =>
       fragP p disp && forallb (fun cr => fragP p (fst cr) && fragP p (snd cr)) cases &&
-      match dflt with Some d => fragP p d | None => true end
+      match dflt with Some d => fragP p d | None => true end &&
+      (f_untyped p || forallb (fun cr => fnexprb (fst cr)) cases)
   | ECoalesce ms => f_coalesce p && forallb (fragP p) ms
   | EIter es => f_lazy p && forallb (fragP p) es
   | EMap _ _ => false
   | EWith _ pr e => match pr with [] => true | _ => f_presets p end && fragP p e
   | ECached _ e => fragP p e
-  | ECall _ f args kwargs => fragP p f && forallb (fragP p) args && forallb (fragP p) kwargs
+  | ECall _ f args kwargs =>
+      fragP p f && forallb (fragP p) args && forallb (fragP p) kwargs && (f_untyped p || basefn f)
   | ETemplate _ ps => f_template p && forallb (fun pe => fragP p (snd pe)) ps
-  | EComp e effs => fragP p e && match effs with [] => true | _ => f_effects p end && forallb (fragP p) effs
+  | EComp e effs =>
+      fragP p e && match effs with [] => true | _ => f_effects p end && forallb (fragP p) effs &&
+      (f_untyped p || forallb fnexprb effs)
   | ELogged e => fragP p e
   | EPipe steps => forallb (fragP p) steps
   | EAllOptions => f_alloptions p
@@ -501,11 +545,11 @@ Section FragInd.
   Hypothesis HOption : forall k dflt dom,
     Popt Q dflt ->
     match dflt, dom with
-    | None, Some _ => f_dom p = true
-    | Some _, Some _ => f_domdflt p = true
+    | None, Some de => f_dom p = true /\ dom_ok p de = true
+    | Some _, Some de => f_domdflt p = true /\ dom_ok p de = true
     | _, None => True
     end -> Q (EOption k dflt dom).
-  Hypothesis HApply : forall src fn, Q src -> Q fn -> Q (EApply src fn).
+  Hypothesis HApply : forall src fn, Q src -> Q fn -> tyfn p fn = true -> Q (EApply src fn).
   Hypothesis HForced : forall es b,
     f_lazy p = false -> b = B_LIST \/ b = B_TUPLE -> Forall Q es -> Q (EApply (EIter es) (EValue (VF b [] []))).
   Hypothesis HBind : forall src tbl dflt,
@@ -514,17 +558,18 @@ Section FragInd.
   Hypothesis HSwitch : forall disp tbl dflt,
     Q disp -> Forall (fun ve => Q (snd ve)) tbl -> Popt Q dflt -> Q (ESwitch disp tbl dflt).
   Hypothesis HCase : forall disp cases dflt,
-    Q disp -> Forall (fun cr => Q (fst cr) /\ Q (snd cr)) cases -> Popt Q dflt -> Q (ECase disp cases dflt).
+    Q disp -> Forall (fun cr => Q (fst cr) /\ Q (snd cr)) cases -> Popt Q dflt ->
+    f_untyped p || forallb (fun cr => fnexprb (fst cr)) cases = true -> Q (ECase disp cases dflt).
   Hypothesis HCoalesce : forall ms, f_coalesce p = true -> Forall Q ms -> Q (ECoalesce ms).
   Hypothesis HIter : forall es, f_lazy p = true -> Forall Q es -> Q (EIter es).
   Hypothesis HWith : forall force pr e, pr = [] \/ f_presets p = true -> Q e -> Q (EWith force pr e).
   Hypothesis HCached : forall c e, Q e -> Q (ECached c e).
   Hypothesis HCall : forall partial f args kwargs,
-    Q f -> Forall Q args -> Forall Q kwargs -> Q (ECall partial f args kwargs).
+    Q f -> Forall Q args -> Forall Q kwargs -> f_untyped p || basefn f = true -> Q (ECall partial f args kwargs).
   Hypothesis HTemplate : forall s ps,
     f_template p = true -> Forall (fun pe => Q (snd pe)) ps -> Q (ETemplate s ps).
   Hypothesis HComp : forall e effs,
-    effs = [] \/ f_effects p = true -> Q e -> Forall Q effs -> Q (EComp e effs).
+    effs = [] \/ f_effects p = true -> Q e -> Forall Q effs -> f_untyped p || forallb fnexprb effs = true -> Q (EComp e effs).
   Hypothesis HLogged : forall e, Q e -> Q (ELogged e).
   Hypothesis HPipe : forall steps, Forall Q steps -> Q (EPipe steps).
   Hypothesis HAll : f_alloptions p = true -> Q EAllOptions.
@@ -555,11 +600,12 @@ Section FragInd.
     - now apply HValue.
     - destruct dflt as [d|].
       + apply andb_prop in Hf as [Hd Hdom]. apply HOption; [apply (proj1 H Hd)|].
-        destruct dom; [exact Hdom|exact I].
-      + apply HOption; [exact I|]. destruct dom; [exact Hf|exact I].
+        destruct dom; [now apply andb_prop in Hdom|exact I].
+      + apply HOption; [exact I|]. destruct dom; [now apply andb_prop in Hf|exact I].
     - destruct IHe1 as [Hs Hes].
-      assert (Hgen : fragP p e1 && fragP p e2 = true -> Q (EApply e1 e2)).
-      { intros Hb. apply andb_prop in Hb as [H1 H2]. apply HApply; [now apply Hs|now apply (proj1 IHe2)]. }
+      assert (Hgen : fragP p e1 && fragP p e2 && tyfn p e2 = true -> Q (EApply e1 e2)).
+      { intros Hb. apply andb_prop in Hb as [Hb Ht]. apply andb_prop in Hb as [H1 H2].
+        apply HApply; [now apply Hs|now apply (proj1 IHe2)|exact Ht]. }
       destruct e1; try exact (Hgen Hf).
       destruct (Bool.bool_dec (f_lazy p) true) as [L|L].
       + apply Hgen. cbn [fragP]. rewrite L in *. exact Hf.
@@ -577,8 +623,8 @@ Section FragInd.
       + intros ->. exact Hd.
     - apply andb_prop in Hf as [Hf Hd]. apply andb_prop in Hf as [Hs Ht].
       apply HSwitch; [now apply (proj1 IHe)|now apply P_snd|now apply P_opt].
-    - apply andb_prop in Hf as [Hf Hd]. apply andb_prop in Hf as [Hs Ht].
-      apply HCase; [now apply (proj1 IHe)| |now apply P_opt].
+    - apply andb_prop in Hf as [Hf Hty]. apply andb_prop in Hf as [Hf Hd]. apply andb_prop in Hf as [Hs Ht].
+      apply HCase; [now apply (proj1 IHe)| |now apply P_opt|exact Hty].
       clear -H Ht. induction cases as [|[c r] cases IH]; [constructor|].
       cbn [forallb fst snd] in Ht. apply andb_prop in Ht as [Hcr Ht]. apply andb_prop in Hcr as [Hc Hr].
       inversion H; subst. destruct H2 as [[Pc _] [Pr _]]. constructor; [split; auto|now apply IH].
@@ -589,11 +635,11 @@ Section FragInd.
     - apply andb_prop in Hf as [Hp He]. apply HWith; [|now apply (proj1 IHe)].
       destruct p0; [now left|now right].
     - apply HCached. now apply (proj1 IHe).
-    - apply andb_prop in Hf as [Hf Hk]. apply andb_prop in Hf as [Hf Ha].
-      apply HCall; [now apply (proj1 IHe)|now apply P_all|now apply P_all].
+    - apply andb_prop in Hf as [Hf Hty]. apply andb_prop in Hf as [Hf Hk]. apply andb_prop in Hf as [Hf Ha].
+      apply HCall; [now apply (proj1 IHe)|now apply P_all|now apply P_all|exact Hty].
     - apply andb_prop in Hf as [Ht Hps]. apply HTemplate; [exact Ht|now apply P_snd].
-    - apply andb_prop in Hf as [Hf Hes]. apply andb_prop in Hf as [He Hfl].
-      apply HComp; [|now apply (proj1 IHe)|now apply P_all].
+    - apply andb_prop in Hf as [Hf Hty]. apply andb_prop in Hf as [Hf Hes]. apply andb_prop in Hf as [He Hfl].
+      apply HComp; [|now apply (proj1 IHe)|now apply P_all|exact Hty].
       destruct effects; [now left|now right].
     - apply HLogged. now apply (proj1 IHe).
     - apply HPipe. now apply P_all.
@@ -1036,29 +1082,1433 @@ Section Ref.
         Map, and an Option that has both a default and a domain (finding D4) *)
     Definition pG : fopts :=
       {| f_coalesce := false; f_lazy := true; f_template := false; f_effects := true; f_dom := true;
-         f_domdflt := false; f_presets := true; f_partialbind := true; f_alloptions := true |}.
+         f_domdflt := false; f_presets := true; f_partialbind := true; f_alloptions := true; f_domexpr := true; f_untyped := true |}.
 
     Theorem guard_main e : fragP pG e = true -> guardQ e.
     Proof.
       apply (fragP_ind pG guardQ).
       - exact guard_value.
       - intros k dflt dom Hd Hc. apply guard_option; [exact Hd|].
-        destruct dflt, dom; try exact I. discriminate Hc.
-      - exact guard_apply.
+        destruct dflt, dom; try exact I. destruct Hc as [Hc _]. discriminate Hc.
+      - intros src fn Hs Hf _. now apply guard_apply.
       - intros es b Hl. discriminate Hl.
       - intros src tbl dflt _ Ht Hd _. now apply guard_bind.
       - intros disp tbl dflt _ Ht Hd. now apply guard_switch.
-      - intros disp cases dflt _ Hc Hd. now apply guard_case.
+      - intros disp cases dflt _ Hc Hd _. now apply guard_case.
       - intros ms Hc. discriminate Hc.
       - intros es _. apply guard_iter.
       - intros force pr e0 _. apply guard_with.
       - exact guard_cached.
-      - exact guard_call.
+      - intros pa f args kwargs Hf Ha Hk _. now apply guard_call.
       - intros s ps Ht. discriminate Ht.
-      - intros e0 effs _. apply guard_comp.
+      - intros e0 effs _ He Hf _. now apply guard_comp.
       - exact guard_logged.
       - exact guard_pipe.
       - intros _. exact guard_all.
     Qed.
   End Guard.
 End Ref.
+
+(** ** Part 6: the statements of C10 on the observed reference functions ([validate_nc], [keys_nc],
+    [eval_nc]: the result with every lazily evaluated iterable consumed, as the harness observes). *)
+Definition is_key (c : cause) : bool := match c with CKey _ => true | _ => false end.
+
+Lemma validate_nc_rs u fuel e o :
+  fst (validate_nc u fuel e o) = rs (validate unit nc_find nc_store cfg_nc u fuel (fun _ _ => true) e o).
+Proof. unfold validate_nc, rs. destruct (validate _ _ _ _ _ _ _ e o tt) as [[r s] l]. reflexivity. Qed.
+Lemma keys_nc_rs u fuel e o :
+  fst (keys_nc u fuel e o) = rs (keys unit nc_find nc_store cfg_nc u fuel (fun _ _ => true) e o).
+Proof. unfold keys_nc, rs. destruct (keys _ _ _ _ _ _ _ e o tt) as [[r s] l]. reflexivity. Qed.
+Lemma explain_nc_rs u fuel e o :
+  fst (explain_nc u fuel e o) = rs (explain unit nc_find nc_store cfg_nc u fuel (fun _ _ => true) e o).
+Proof. unfold explain_nc, rs. destruct (explain _ _ _ _ _ _ _ e o tt) as [[r s] l]. reflexivity. Qed.
+
+Definition consume (r : res value) : res value :=
+  match r with
+  | Ok v => match deep_err v with Some c => Err c true | None => r end
+  | _ => r
+  end.
+Lemma eval_nc_rs u fuel e o :
+  fst (eval_nc u fuel e o) = consume (rs (eval unit nc_find nc_store cfg_nc u fuel (fun _ _ => true) e o)).
+Proof. unfold eval_nc, rs, consume. destruct (eval _ _ _ _ _ _ _ e o tt) as [[r s] l]. reflexivity. Qed.
+
+(** user code does not fabricate deferred missing-option failures: a result holds one only if an
+    argument did *)
+Definition no_fabricated_missing (u : N -> list value -> cres) : Prop :=
+  forall f args v, vsgood is_key args = true -> u f args = COk v -> vgood is_key v = true.
+
+Theorem validate_guards_missing_nc u fuel e o :
+  no_fabricated_missing u -> fragP pG e = true ->
+  fst (validate_nc u fuel e o) = Ok tt ->
+  forall c ee, fst (eval_nc u fuel e o) = Err c ee -> is_key c = false.
+Proof.
+  intros Hu Hf Hv c ee He. rewrite validate_nc_rs in Hv. rewrite eval_nc_rs in He.
+  pose proof (guard_main u fuel is_key Hu eq_refl eq_refl (fun _ _ _ _ => eq_refl) e Hf o Hv) as G.
+  destruct (rs (eval _ _ _ _ _ _ _ e o)) as [v|c0 ee0]; cbn [consume res_good] in *.
+  - destruct (deep_err v) eqn:D; [|discriminate]. inversion He; subst.
+    apply (deep_err_good is_key v G _ D).
+  - inversion He; subst. exact G.
+Qed.
+
+(** *** witnesses of the recorded findings (closed terms, decided by computation) *)
+Definition kA : key := [SName 10]. Definition kB : key := [SName 11].
+Definition kP : key := [SName 13]. Definition kQ : key := [SName 14].
+Definition str_b : json := JStr [TLit 98].
+(** a body that raises when some argument is the string "b", and returns None otherwise *)
+Definition u_partial (f : N) (args : list value) : cres :=
+  if existsb (fun a => value_eq a (VJ str_b)) args then CRaise 1 else COk (VJ JNull).
+(** a total body *)
+Definition u_total (f : N) (args : list value) : cres := COk (VJ JNull).
+
+Lemma u_partial_no_fabrication : no_fabricated_missing u_partial.
+Proof. intros f args v _ H. unfold u_partial in H. destruct (existsb _ args); inversion H. reflexivity. Qed.
+Lemma u_total_no_fabrication : no_fabricated_missing u_total.
+Proof. intros f args v _ H. inversion H. reflexivity. Qed.
+
+(** D20: Coalesce(f(a=Option('A')), Option('Q')), f raises for "b", on {'A': 'b'} *)
+Definition d20_expr : expr := ECoalesce [body 100 [EOption kA None None]; EOption kQ None None].
+Definition d20_opts : dict := [(SName 10, str_b)].
+(** D4: Option('A', default=1, domain=Option('P')) on {} *)
+Definition d4_expr : expr := EOption kA (Some (EValue (VJ (JInt 1)))) (Some (EOption kP None None)).
+
+(** ** Part 7: result-level combinators and one result-level equation per (interpreter,
+    constructor) for validate / keys / explain on the reference instance. *)
+Fixpoint unionr {A} (f : A -> res (list key)) (l : list A) : res (list key) :=
+  match l with
+  | [] => Ok []
+  | a :: l' => bindr (f a) (fun x => bindr (unionr f l') (fun y => Ok (x ++ y)))
+  end.
+Fixpoint iterr {A} (f : A -> res unit) (l : list A) : res unit :=
+  match l with
+  | [] => Ok tt
+  | a :: l' => bindr (f a) (fun _ => iterr f l')
+  end.
+Fixpoint mapr {A B} (f : A -> res B) (l : list A) : res (list B) :=
+  match l with
+  | [] => Ok []
+  | a :: l' => bindr (f a) (fun x => bindr (mapr f l') (fun y => Ok (x :: y)))
+  end.
+Definition pickr {A} (x : value) (tbl : list (value * expr)) (g : expr -> res A) (miss : res A) : res A :=
+  match assoc_v x tbl with Some b => g b | None => miss end.
+Definition dfltr {A} (dflt : option expr) (g : expr -> res A) (c : cause) (ee : bool) : res A :=
+  match dflt with Some d => g d | None => Err c ee end.
+Definition dispr (r : res value) (hd : bool) : res (option value) :=
+  catchr (bindr r (fun k => Ok (Some k))) (fun c ee => if ee && hd then Ok None else Err c ee).
+Definition insuffh {A} (c : cause) (ee : bool) : res A := if ee then Err CInsuff true else Err c ee.
+Fixpoint coalr {A} (v : expr -> res unit) (act : expr -> res A) (ms : list expr) (last : option (cause * bool)) : res A :=
+  match ms with
+  | [] => match last with Some (c, ee) => Err c ee | None => Err CUnmodelled false end
+  | m :: ms' => catchr (bindr (v m) (fun _ => act m))
+                       (fun c ee => if ee then coalr v act ms' (Some (c, ee)) else Err c ee)
+  end.
+Fixpoint lastr {A} (act : expr -> res A) (ms : list expr) : res A :=
+  match ms with
+  | [] => Err CUnmodelled false
+  | [m] => act m
+  | _ :: ms' => lastr act ms'
+  end.
+
+Lemma rs_bind_ext A B (m : MU A) (f : A -> MU B) g :
+  (forall a, rs (f a) = g a) -> rs (bind unit m f) = bindr (rs m) g.
+Proof. intros H. rewrite rs_bind. destruct (rs m); cbn [bindr]; [apply H|reflexivity]. Qed.
+Lemma rs_catch_ext A (m : MU A) h r g :
+  rs m = r -> (forall c ee, rs (h c ee) = g c ee) -> rs (catch unit m h) = catchr r g.
+Proof.
+  intros <- H. rewrite rs_catch. destruct (rs m) as [a|c ee]; cbn [catchr]; [reflexivity|].
+  destruct (unmodb c); [reflexivity|apply H].
+Qed.
+Lemma rs_wrap_ext A (m : MU A) r : rs m = r -> rs (wrap_eval unit m) = wrapr r.
+Proof. intros <-. apply rs_wrap. Qed.
+Lemma rs_unionM_ext A (f : A -> MU (list key)) g l :
+  (forall a, rs (f a) = g a) -> rs (unionM unit f l) = unionr g l.
+Proof.
+  intros H. induction l as [|a l IH]; [reflexivity|].
+  rewrite rs_unionM_cons. cbn [unionr]. now rewrite H, IH.
+Qed.
+Lemma rs_iterM_ext A (f : A -> MU unit) g l :
+  (forall a, rs (f a) = g a) -> rs (iterM unit f l) = iterr g l.
+Proof.
+  intros H. induction l as [|a l IH]; [reflexivity|].
+  rewrite rs_iterM_cons. cbn [iterr]. rewrite H. destruct (g a); cbn [bindr]; [exact IH|reflexivity].
+Qed.
+Lemma rs_mapM_ext A B (f : A -> MU B) g l :
+  (forall a, rs (f a) = g a) -> rs (mapM unit f l) = mapr g l.
+Proof.
+  intros H. induction l as [|a l IH]; [reflexivity|].
+  rewrite rs_mapM_cons. cbn [mapr]. now rewrite H, IH.
+Qed.
+Lemma rs_pick_ext A x tbl (onhit : expr -> MU A) onmiss g miss :
+  (forall b, rs (onhit b) = g b) -> rs onmiss = miss ->
+  rs (pick x onhit onmiss tbl) = pickr x tbl g miss.
+Proof. intros H1 H2. rewrite pick_assoc. unfold pickr. destruct (assoc_v x tbl); auto. Qed.
+Lemma rs_dispatch (m : MU value) hd : rs (dispatch_value unit m hd) = dispr (rs m) hd.
+Proof.
+  unfold dispatch_value, dispr. apply rs_catch_ext.
+  - apply rs_bind_ext. reflexivity.
+  - intros c ee. destruct (ee && hd); reflexivity.
+Qed.
+
+(** inversion of the list combinators *)
+Lemma unionr_ok {A} (f : A -> res (list key)) l K :
+  unionr f l = Ok K -> forall a, In a l -> exists Ka, f a = Ok Ka /\ incl Ka K.
+Proof.
+  revert K. induction l as [|b l IH]; intros K H a Ha; [destruct Ha|].
+  cbn [unionr] in H. apply bindr_ok in H as [x [Hx H]]. apply bindr_ok in H as [y [Hy H]].
+  inversion H; subst. destruct Ha as [<-|Ha].
+  - exists x. split; [exact Hx|]. apply incl_appl, incl_refl.
+  - destruct (IH y Hy a Ha) as [Ka [E I]]. exists Ka. split; [exact E|]. now apply incl_appr.
+Qed.
+Lemma unionr_ok_in {A} (f : A -> res (list key)) l K k :
+  unionr f l = Ok K -> In k K -> exists a Ka, In a l /\ f a = Ok Ka /\ In k Ka.
+Proof.
+  revert K. induction l as [|b l IH]; intros K H Hk.
+  - inversion H; subst. destruct Hk.
+  - cbn [unionr] in H. apply bindr_ok in H as [x [Hx H]]. apply bindr_ok in H as [y [Hy H]].
+    inversion H; subst. apply in_app_or in Hk as [Hk|Hk].
+    + exists b, x. split; [now left|auto].
+    + destruct (IH y Hy Hk) as [a [Ka [Ha [E I]]]]. exists a, Ka. split; [now right|auto].
+Qed.
+Lemma unionr_err {A} (f : A -> res (list key)) l c ee :
+  unionr f l = Err c ee -> exists a, In a l /\ f a = Err c ee.
+Proof.
+  induction l as [|b l IH]; [discriminate|]. cbn [unionr]. intros H.
+  apply bindr_err in H as [H|[x [_ H]]]; [exists b; split; [now left|exact H]|].
+  apply bindr_err in H as [H|[y [_ H]]]; [|discriminate].
+  destruct (IH H) as [a [Ha E]]. exists a. split; [now right|exact E].
+Qed.
+Lemma unionr_all_ok {A} (f : A -> res (list key)) l :
+  (forall a, In a l -> exists Ka, f a = Ok Ka) -> exists K, unionr f l = Ok K.
+Proof.
+  induction l as [|b l IH]; intros H; [now exists []|].
+  destruct (H b (or_introl eq_refl)) as [x Hx]. destruct IH as [y Hy]; [intros a Ha; apply H; now right|].
+  exists (x ++ y). cbn [unionr]. now rewrite Hx, Hy.
+Qed.
+Lemma iterr_ok {A} (f : A -> res unit) l : iterr f l = Ok tt <-> forall a, In a l -> f a = Ok tt.
+Proof.
+  induction l as [|b l IH]; [split; [intros _ a []|reflexivity]|]. cbn [iterr]. split.
+  - intros H a [<-|Ha]; apply bindr_ok in H as [[] [Hb H]]; [exact Hb|now apply IH].
+  - intros H. rewrite (H b (or_introl eq_refl)). cbn [bindr]. apply IH. intros a Ha. apply H. now right.
+Qed.
+Lemma iterr_err {A} (f : A -> res unit) l c ee :
+  iterr f l = Err c ee -> exists a, In a l /\ f a = Err c ee.
+Proof.
+  induction l as [|b l IH]; [discriminate|]. cbn [iterr]. intros H.
+  apply bindr_err in H as [H|[[] [_ H]]]; [exists b; split; [now left|exact H]|].
+  destruct (IH H) as [a [Ha E]]. exists a. split; [now right|exact E].
+Qed.
+(** the first failing element: everything before it succeeds *)
+Lemma iterr_err_first {A} (f : A -> res unit) l c ee :
+  iterr f l = Err c ee -> exists pre a post, l = pre ++ a :: post /\ (forall b, In b pre -> f b = Ok tt) /\ f a = Err c ee.
+Proof.
+  induction l as [|b l IH]; [discriminate|]. cbn [iterr]. intros H.
+  apply bindr_err in H as [H|[[] [Hb H]]].
+  - exists [], b, l. split; [reflexivity|]. split; [intros ? []|exact H].
+  - destruct (IH H) as [pre [a [post [-> [Hp Ha]]]]]. exists (b :: pre), a, post.
+    split; [reflexivity|]. split; [|exact Ha]. intros x [<-|Hx]; auto.
+Qed.
+Lemma mapr_err {A B} (f : A -> res B) l c ee :
+  mapr f l = Err c ee -> exists a, In a l /\ f a = Err c ee.
+Proof.
+  induction l as [|b l IH]; [discriminate|]. cbn [mapr]. intros H.
+  apply bindr_err in H as [H|[x [_ H]]]; [exists b; split; [now left|exact H]|].
+  apply bindr_err in H as [H|[y [_ H]]]; [|discriminate].
+  destruct (IH H) as [a [Ha E]]. exists a. split; [now right|exact E].
+Qed.
+Lemma catchr_ok {A} (r : res A) h a : catchr r h = Ok a -> r = Ok a \/ exists c ee, r = Err c ee /\ unmodb c = false /\ h c ee = Ok a.
+Proof.
+  destruct r as [x|c ee]; cbn [catchr]; [intros H; now left|].
+  destruct (unmodb c) eqn:U; [discriminate|]. intros H. right. now exists c, ee.
+Qed.
+Lemma catchr_err {A} (r : res A) h c ee :
+  catchr r h = Err c ee ->
+  (r = Err c ee /\ unmodb c = true) \/ exists c0 ee0, r = Err c0 ee0 /\ unmodb c0 = false /\ h c0 ee0 = Err c ee.
+Proof.
+  destruct r as [x|c0 ee0]; cbn [catchr]; [discriminate|].
+  destruct (unmodb c0) eqn:U.
+  - intros H. inversion H; subst. now left.
+  - intros H. right. now exists c0, ee0.
+Qed.
+
+Lemma rs_bind_ext2 A B (m : MU A) (f : A -> MU B) r g :
+  rs m = r -> (forall a, rs (f a) = g a) -> rs (bind unit m f) = bindr r g.
+Proof. intros <-. apply rs_bind_ext. Qed.
+
+Section Eqs.
+  Variable u : N -> list value -> cres.
+  Variable rfuel : nat.
+  Notation ev := (eval unit nc_find nc_store cfg_nc u rfuel (fun _ _ => true)).
+  Notation va := (validate unit nc_find nc_store cfg_nc u rfuel (fun _ _ => true)).
+  Notation ks := (keys unit nc_find nc_store cfg_nc u rfuel (fun _ _ => true)).
+  Notation ex := (explain unit nc_find nc_store cfg_nc u rfuel (fun _ _ => true)).
+  Local Notation U l := (l unit nc_find nc_store cfg_nc u rfuel (fun _ _ => true)) (only parsing).
+  Local Notation E e o := (rs (ev e o)) (only parsing).
+  Local Notation V e o := (rs (va e o)) (only parsing).
+  Local Notation K e o := (rs (ks e o)) (only parsing).
+  Local Notation X e o := (rs (ex e o)) (only parsing).
+
+  Definition has_par (s : str) : bool := existsb (fun t => match t with TPar _ => true | _ => false end) s.
+  Definition refsr (strict : bool) (o : dict) (s : str) : res (list key) :=
+    rs (unionM unit (fun k' => ref_keys unit rfuel strict o k') (refs s)).
+
+  (** Value *)
+  Lemma V_value v o : V (EValue v) o = Ok tt. Proof. reflexivity. Qed.
+  Lemma K_value v o : K (EValue v) o = Ok []. Proof. reflexivity. Qed.
+  Lemma X_value v o : X (EValue v) o = Ok []. Proof. reflexivity. Qed.
+
+  (** Option *)
+  Lemma K_option k dflt dom o :
+    K (EOption k dflt dom) o =
+      match lookup k (JObj o) with
+      | TypeErr => Err CType false
+      | Found (JStr s) => if has_par s then Err CUnmodelled false else bindr (refsr true o s) (fun l => Ok (k :: l))
+      | Found _ => Ok [k]
+      | Absent => match dflt with Some d => K d o | None => Err (CKey k) true end
+      end.
+  Proof.
+    rewrite (U keys_EOption), rs_bind, rs_rd. cbn [bindr].
+    destruct (lookup k (JObj o)) as [raw| |]; [|destruct dflt; reflexivity|reflexivity].
+    destruct raw; try reflexivity. fold (has_par s). destruct (has_par s); [reflexivity|].
+    apply rs_bind_ext. reflexivity.
+  Qed.
+  Lemma X_option k dflt dom o :
+    X (EOption k dflt dom) o =
+      match lookup k (JObj o) with
+      | TypeErr => Err CType false
+      | Found (JStr s) => if has_par s then Err CUnmodelled false else bindr (refsr false o s) (fun l => Ok (k :: l))
+      | Found _ => Ok [k]
+      | Absent => match dflt with Some d => X d o | None => Ok [k] end
+      end.
+  Proof.
+    rewrite (U explain_EOption), rs_bind, rs_rd. cbn [bindr].
+    destruct (lookup k (JObj o)) as [raw| |]; [|destruct dflt; reflexivity|reflexivity].
+    destruct raw; try reflexivity. fold (has_par s). destruct (has_par s); [reflexivity|].
+    apply rs_bind_ext. reflexivity.
+  Qed.
+
+  (** Apply *)
+  Lemma V_apply a b o : V (EApply a b) o = bindr (V a o) (fun _ => V b o).
+  Proof. rewrite (U validate_EApply). now apply rs_bind_ext. Qed.
+  Definition app2 (x y : res (list key)) : res (list key) := bindr x (fun a => bindr y (fun b => Ok (a ++ b))).
+  Lemma K_apply a b o : K (EApply a b) o = app2 (K a o) (K b o).
+  Proof. rewrite (U keys_EApply). apply rs_bind_ext. intros x. now apply rs_bind_ext. Qed.
+  Lemma X_apply a b o : X (EApply a b) o = app2 (X a o) (X b o).
+  Proof. rewrite (U explain_EApply). apply rs_bind_ext. intros x. now apply rs_bind_ext. Qed.
+
+  (** Bind *)
+  Lemma V_bind src tbl dflt o :
+    V (EBind src tbl dflt) o =
+      bindr (V src o) (fun _ => bindr (E src o) (fun x =>
+        pickr x tbl (fun b => V b o) (dfltr dflt (fun d => V d o) (CUser 0) false))).
+  Proof.
+    rewrite (U validate_EBind). apply rs_bind_ext. intros _. apply rs_bind_ext. intros x.
+    apply rs_pick_ext; [reflexivity|destruct dflt; reflexivity].
+  Qed.
+  Definition bind_body (src : expr) (tbl : list (value * expr)) (dflt : option expr) (o : dict)
+      (g : expr -> res (list key)) : res (list key) :=
+    bindr (g src) (fun a => bindr (E src o) (fun x =>
+      bindr (pickr x tbl g (dfltr dflt g (CUser 0) false)) (fun b => Ok (a ++ b)))).
+  Lemma K_bind src tbl dflt o :
+    K (EBind src tbl dflt) o = bind_body src tbl dflt o (fun e => K e o).
+  Proof.
+    rewrite (U keys_EBind). unfold bind_body. apply rs_bind_ext. intros a. apply rs_bind_ext. intros x.
+    rewrite rs_bind. f_equal. apply rs_pick_ext; [reflexivity|destruct dflt; reflexivity].
+  Qed.
+  Lemma X_bind src tbl dflt o :
+    X (EBind src tbl dflt) o = catchr (bind_body src tbl dflt o (fun e => X e o)) insuffh.
+  Proof.
+    rewrite (U explain_EBind). apply rs_catch_ext; [|intros c [|]; reflexivity].
+    unfold bind_body. apply rs_bind_ext. intros a. apply rs_bind_ext. intros x.
+    rewrite rs_bind. f_equal. apply rs_pick_ext; [reflexivity|destruct dflt; reflexivity].
+  Qed.
+
+  (** Switch *)
+  Definition switch_sel {A} (dv : option value) (tbl : list (value * expr)) (dflt : option expr)
+      (g : expr -> res A) (c : cause) : res A :=
+    match dv with
+    | None => dfltr dflt g CUnmodelled false
+    | Some k => if negb (hashable k) then Err CType false else pickr k tbl g (dfltr dflt g c true)
+    end.
+  Definition switch_keys (dv : option value) (tbl : list (value * expr)) (dflt : option expr)
+      (g : expr -> res (list key)) (c : cause) (kd : res (list key)) : res (list key) :=
+    match dv with
+    | None => dfltr dflt g CUnmodelled false
+    | Some k => if negb (hashable k) then Err CType false else app2 (pickr k tbl g (dfltr dflt g c true)) kd
+    end.
+  Lemma V_switch disp tbl dflt o :
+    V (ESwitch disp tbl dflt) o =
+      bindr (dispr (E disp o) (is_some dflt)) (fun dv => switch_sel dv tbl dflt (fun e => V e o) CSwitch).
+  Proof.
+    rewrite (U validate_ESwitch). apply rs_bind_ext2; [apply rs_dispatch|]. intros [k|]; cbn [switch_sel].
+    - destruct (negb (hashable k)); [reflexivity|]. apply rs_pick_ext; [reflexivity|destruct dflt; reflexivity].
+    - destruct dflt; reflexivity.
+  Qed.
+  Lemma K_switch disp tbl dflt o :
+    K (ESwitch disp tbl dflt) o =
+      bindr (dispr (E disp o) (is_some dflt)) (fun dv => switch_keys dv tbl dflt (fun e => K e o) CSwitch (K disp o)).
+  Proof.
+    rewrite (U keys_ESwitch). apply rs_bind_ext2; [apply rs_dispatch|]. intros [k|]; cbn [switch_keys].
+    - destruct (negb (hashable k)); [reflexivity|]. unfold app2.
+      apply rs_bind_ext2; [apply rs_pick_ext; [reflexivity|destruct dflt; reflexivity]|].
+      intros a. now apply rs_bind_ext.
+    - destruct dflt; reflexivity.
+  Qed.
+  Lemma X_switch disp tbl dflt o :
+    X (ESwitch disp tbl dflt) o =
+      bindr (catchr (dispr (E disp o) (is_some dflt)) insuffh)
+            (fun dv => switch_keys dv tbl dflt (fun e => X e o) CInsuff (X disp o)).
+  Proof.
+    rewrite (U explain_ESwitch). apply rs_bind_ext2.
+    { apply rs_catch_ext; [apply rs_dispatch|intros c [|]; reflexivity]. }
+    intros [k|]; cbn [switch_keys].
+    - destruct (negb (hashable k)); [reflexivity|]. unfold app2.
+      apply rs_bind_ext2; [apply rs_pick_ext; [reflexivity|destruct dflt; reflexivity]|].
+      intros a. now apply rs_bind_ext.
+    - destruct dflt; reflexivity.
+  Qed.
+
+  (** CaseWhen *)
+  Notation case_sel := (case_sel u rfuel).
+  Definition case_res {A} (s : option expr) (dflt : option expr) (g : expr -> res A) : res A :=
+    match s with Some r => g r | None => dfltr dflt g CCase true end.
+  Lemma V_case disp cases dflt o :
+    V (ECase disp cases dflt) o =
+      bindr (V disp o) (fun _ => bindr (E disp o) (fun x => bindr (case_sel x o cases) (fun s =>
+        case_res s dflt (fun e => V e o)))).
+  Proof.
+    rewrite va_case. apply rs_bind_ext. intros _. apply rs_bind_ext. intros x.
+    rewrite rs_case_go. destruct (case_sel x o cases) as [[r|]|]; cbn [bindr case_res]; try reflexivity.
+    apply rs_dflt_or.
+  Qed.
+  Definition case_body (disp : expr) (cases : list (expr * expr)) (dflt : option expr) (o : dict)
+      (g : expr -> res (list key)) : res (list key) :=
+    bindr (g disp) (fun a => bindr (E disp o) (fun x => bindr (case_sel x o cases) (fun s =>
+      bindr (case_res s dflt g) (fun b => Ok (a ++ b))))).
+  Lemma K_case disp cases dflt o :
+    K (ECase disp cases dflt) o = case_body disp cases dflt o (fun e => K e o).
+  Proof.
+    rewrite ks_case. unfold case_body. apply rs_bind_ext. intros a. apply rs_bind_ext. intros x.
+    rewrite rs_bind, rs_case_go. destruct (case_sel x o cases) as [[r|]|]; cbn [bindr case_res]; try reflexivity.
+    now rewrite rs_dflt_or.
+  Qed.
+  Lemma X_case disp cases dflt o :
+    X (ECase disp cases dflt) o = catchr (case_body disp cases dflt o (fun e => X e o)) insuffh.
+  Proof.
+    rewrite ex_case. apply rs_catch_ext; [|intros c [|]; reflexivity].
+    unfold case_body. apply rs_bind_ext. intros a. apply rs_bind_ext. intros x.
+    rewrite rs_bind, rs_case_go. destruct (case_sel x o cases) as [[r|]|]; cbn [bindr case_res]; try reflexivity.
+    now rewrite rs_dflt_or.
+  Qed.
+
+  (** Coalesce *)
+  Lemma rs_coal_go A o (act : expr -> MU A) ms : forall last,
+    rs (coal_go u rfuel o act ms last) = coalr (fun m => V m o) (fun m => rs (act m)) ms last.
+  Proof.
+    induction ms as [|m ms IH]; intros last; [apply rs_coal_nil|].
+    rewrite rs_coal_cons. cbn [coalr]. destruct (bindr _ _) as [a|c ee]; cbn [catchr]; [reflexivity|].
+    destruct (unmodb c); [reflexivity|]. destruct ee; [apply IH|reflexivity].
+  Qed.
+  Lemma V_coalesce ms o : V (ECoalesce ms) o = coalr (fun m => V m o) (fun m => V m o) ms None.
+  Proof. rewrite va_coalesce. apply rs_coal_go. Qed.
+  Lemma K_coalesce ms o : K (ECoalesce ms) o = coalr (fun m => V m o) (fun m => K m o) ms None.
+  Proof. rewrite ks_coalesce. apply rs_coal_go. Qed.
+  Lemma X_coalesce ms o :
+    X (ECoalesce ms) o =
+      catchr (coalr (fun m => V m o) (fun m => X m o) ms None)
+             (fun c ee => if ee then lastr (fun m => X m o) ms else Err c ee).
+  Proof.
+    rewrite (U explain_ECoalesce). apply rs_catch_ext.
+    - apply (rs_coal_go _ o (fun m => ex m o) ms None).
+    - intros c [|]; [|reflexivity]. induction ms as [|m [|m' ms] IH]; try reflexivity. exact IH.
+  Qed.
+
+  (** Iter *)
+  Lemma V_iter es o : V (EIter es) o = iterr (fun x => V x o) es.
+  Proof. rewrite (U validate_EIter). now apply rs_iterM_ext. Qed.
+  Lemma K_iter es o : K (EIter es) o = unionr (fun x => K x o) es.
+  Proof. rewrite (U keys_EIter). now apply rs_unionM_ext. Qed.
+  Lemma X_iter es o : X (EIter es) o = unionr (fun x => X x o) es.
+  Proof. rewrite (U explain_EIter). now apply rs_unionM_ext. Qed.
+
+  (** Map *)
+  Definition rowsr (o : dict) (its : list (key * expr)) : res (list (list (key * value))) :=
+    bindr (mapr (fun kv => bindr (E (snd kv) o) (fun v => rs (force_elems unit v))) its)
+          (fun vals => Ok (map (fun combo => combine (map fst its) combo) (product vals))).
+  Lemma rs_map_rows o its : rs (map_rows unit (fun x => ev x o) its) = rowsr o its.
+  Proof.
+    unfold map_rows, rowsr. apply rs_bind_ext2; [|reflexivity].
+    apply rs_mapM_ext. intros kv. now apply rs_bind_ext.
+  Qed.
+  Definition row_keys (e : expr) (o : dict) (g : expr -> dict -> res (list key)) (row : list (key * value)) : res (list key) :=
+    bindr (rs (row_options unit row)) (fun os =>
+      bindr (g e (with_opts true os o)) (fun l => rs (filter_preset unit true os o (with_opts true os o) l))).
+  Definition map_body (e : expr) (its : list (key * expr)) (o : dict) (g : expr -> dict -> res (list key)) : res (list key) :=
+    bindr (rowsr o its) (fun rows => app2 (unionr (row_keys e o g) rows) (unionr (fun kv => g (snd kv) o) its)).
+  Lemma V_map e its o :
+    V (EMap e its) o =
+      bindr (rowsr o its) (fun rows =>
+        iterr (fun row => bindr (rs (row_options unit row)) (fun os => V e (with_opts true os o))) rows).
+  Proof.
+    rewrite (U validate_EMap). apply rs_bind_ext2; [apply rs_map_rows|]. intros rows.
+    apply rs_iterM_ext. intros row. now apply rs_bind_ext.
+  Qed.
+  Lemma K_map e its o : K (EMap e its) o = map_body e its o (fun x d => K x d).
+  Proof.
+    rewrite (U keys_EMap). unfold map_body, app2. apply rs_bind_ext2; [apply rs_map_rows|]. intros rows.
+    apply rs_bind_ext2.
+    - apply rs_unionM_ext. intros row. unfold row_keys. apply rs_bind_ext. intros os. now apply rs_bind_ext.
+    - intros a. apply rs_bind_ext2; [now apply rs_unionM_ext|reflexivity].
+  Qed.
+  Lemma X_map e its o :
+    X (EMap e its) o =
+      catchr (map_body e its o (fun x d => X x d))
+             (fun c ee => if ee then
+                 bindr (X e o) (fun a => bindr (unionr (fun kv => X (snd kv) o) its) (fun b =>
+                   Ok (filter (fun k => negb (key_mem k (map fst its))) a ++ b)))
+               else Err c ee).
+  Proof.
+    rewrite (U explain_EMap). apply rs_catch_ext.
+    - unfold map_body, app2. apply rs_bind_ext2; [apply rs_map_rows|]. intros rows.
+      apply rs_bind_ext2.
+      + apply rs_unionM_ext. intros row. unfold row_keys. apply rs_bind_ext. intros os. now apply rs_bind_ext.
+      + intros a. apply rs_bind_ext2; [now apply rs_unionM_ext|reflexivity].
+    - intros c [|]; [|reflexivity]. apply rs_bind_ext. intros a.
+      apply rs_bind_ext2; [now apply rs_unionM_ext|reflexivity].
+  Qed.
+
+  (** WithOptions / Cached / Logged *)
+  Lemma V_with f p e o : V (EWith f p e) o = V e (with_opts f p o). Proof. reflexivity. Qed.
+  Definition filtr (f : bool) (p o : dict) (r : res (list key)) : res (list key) :=
+    bindr r (fun l => rs (filter_preset unit f p o (with_opts f p o) l)).
+  Lemma K_with f p e o : K (EWith f p e) o = filtr f p o (K e (with_opts f p o)).
+  Proof. rewrite (U keys_EWith). cbv zeta. now apply rs_bind_ext. Qed.
+  Lemma X_with f p e o : X (EWith f p e) o = filtr f p o (X e (with_opts f p o)).
+  Proof. rewrite (U explain_EWith). cbv zeta. now apply rs_bind_ext. Qed.
+  Lemma V_cached c e o : V (ECached c e) o = V e o. Proof. now rewrite va_cached. Qed.
+  Lemma K_cached c e o : K (ECached c e) o = K e o. Proof. reflexivity. Qed.
+  Lemma X_cached c e o : X (ECached c e) o = X e o. Proof. reflexivity. Qed.
+  Lemma V_logged e o : V (ELogged e) o = V e o. Proof. reflexivity. Qed.
+  Lemma K_logged e o : K (ELogged e) o = K e o. Proof. reflexivity. Qed.
+  Lemma X_logged e o : X (ELogged e) o = X e o. Proof. reflexivity. Qed.
+
+  (** Call *)
+  Lemma V_call pa f args kwargs o :
+    V (ECall pa f args kwargs) o =
+      bindr (V f o) (fun _ => bindr (iterr (fun x => V x o) args) (fun _ => iterr (fun x => V x o) kwargs)).
+  Proof.
+    rewrite (U validate_ECall). apply rs_bind_ext. intros _.
+    apply rs_bind_ext2; [now apply rs_iterM_ext|]. intros _. now apply rs_iterM_ext.
+  Qed.
+  Definition call_body (f : expr) (args kwargs : list expr) (g : expr -> res (list key)) : res (list key) :=
+    bindr (g f) (fun a => bindr (unionr g args) (fun b => bindr (unionr g kwargs) (fun c => Ok (a ++ b ++ c)))).
+  Lemma K_call pa f args kwargs o : K (ECall pa f args kwargs) o = call_body f args kwargs (fun x => K x o).
+  Proof.
+    rewrite (U keys_ECall). unfold call_body. apply rs_bind_ext. intros a.
+    apply rs_bind_ext2; [now apply rs_unionM_ext|]. intros b.
+    apply rs_bind_ext2; [now apply rs_unionM_ext|reflexivity].
+  Qed.
+  Lemma X_call pa f args kwargs o : X (ECall pa f args kwargs) o = call_body f args kwargs (fun x => X x o).
+  Proof.
+    rewrite (U explain_ECall). unfold call_body. apply rs_bind_ext. intros a.
+    apply rs_bind_ext2; [now apply rs_unionM_ext|]. intros b.
+    apply rs_bind_ext2; [now apply rs_unionM_ext|reflexivity].
+  Qed.
+
+  (** Template *)
+  Definition vref (o : dict) (k : key) : res unit :=
+    match lookup k (JObj o) with
+    | TypeErr => Err CType false
+    | Absent => Err (CKey k) true
+    | Found raw => bindr (wrapr (rs (of_rres unit (resolve rfuel o raw)))) (fun _ => Ok tt)
+    end.
+  Lemma V_template s ps o :
+    V (ETemplate s ps) o =
+      bindr (iterr (fun pe => V (snd pe) o) ps) (fun _ => iterr (vref o) (refs s)).
+  Proof.
+    rewrite (U validate_ETemplate). apply rs_bind_ext2; [now apply rs_iterM_ext|]. intros _.
+    apply rs_iterM_ext. intros k. rewrite rs_bind, rs_rd. cbn [bindr]. unfold vref.
+    destruct (lookup k (JObj o)); try reflexivity.
+    rewrite rs_bind, rs_emit_reads. cbn [bindr]. rewrite rs_bind, rs_wrap.
+    destruct (wrapr _); reflexivity.
+  Qed.
+  Lemma K_template s ps o :
+    K (ETemplate s ps) o = app2 (unionr (fun pe => K (snd pe) o) ps) (refsr true o s).
+  Proof.
+    rewrite (U keys_ETemplate). unfold app2. apply rs_bind_ext2; [now apply rs_unionM_ext|]. intros a.
+    now apply rs_bind_ext.
+  Qed.
+  Lemma X_template s ps o :
+    X (ETemplate s ps) o = app2 (unionr (fun pe => X (snd pe) o) ps) (refsr false o s).
+  Proof.
+    rewrite (U explain_ETemplate). unfold app2. apply rs_bind_ext2; [now apply rs_unionM_ext|]. intros a.
+    now apply rs_bind_ext.
+  Qed.
+
+  (** Computation *)
+  Lemma V_comp e effs o :
+    V (EComp e effs) o =
+      bindr (V e o) (fun _ => if effects_opt_off o then Ok tt else iterr (fun x => V x o) effs).
+  Proof.
+    rewrite (U validate_EComp). apply rs_bind_ext. intros _.
+    destruct (effects_opt_off o); [reflexivity|now apply rs_iterM_ext].
+  Qed.
+  Lemma K_comp e effs o : K (EComp e effs) o = K e o. Proof. reflexivity. Qed.
+  Lemma X_comp e effs o :
+    X (EComp e effs) o =
+      bindr (X e o) (fun a => if effects_opt_off o then Ok a
+                              else bindr (unionr (fun x => X x o) effs) (fun b => Ok (a ++ b))).
+  Proof.
+    rewrite (U explain_EComp). apply rs_bind_ext. intros a.
+    destruct (effects_opt_off o); [reflexivity|]. apply rs_bind_ext2; [now apply rs_unionM_ext|reflexivity].
+  Qed.
+
+  (** Pipeline / AllOptions *)
+  Lemma V_pipe steps o : V (EPipe steps) o = iterr (fun x => V x o) steps.
+  Proof. rewrite (U validate_EPipe). now apply rs_iterM_ext. Qed.
+  Lemma K_pipe steps o : K (EPipe steps) o = unionr (fun x => K x o) steps.
+  Proof. rewrite (U keys_EPipe). now apply rs_unionM_ext. Qed.
+  Lemma X_pipe steps o : X (EPipe steps) o = unionr (fun x => X x o) steps.
+  Proof. rewrite (U explain_EPipe). now apply rs_unionM_ext. Qed.
+  Definition allr (o : dict) : res value :=
+    bindr (rs (of_rres unit (resolve rfuel o (JObj o)))) (fun j => Ok (VJ j)).
+  Lemma rs_all_options o : rs (all_options_eval unit rfuel o) = allr o.
+  Proof. unfold all_options_eval. rewrite rs_bind, rs_emit. cbn [bindr]. now apply rs_bind_ext. Qed.
+  Lemma V_all o : V EAllOptions o = bindr (wrapr (allr o)) (fun _ => Ok tt).
+  Proof. rewrite (U validate_EAllOptions). apply rs_bind_ext2; [|reflexivity]. apply rs_wrap_ext, rs_all_options. Qed.
+  Lemma K_all o : K EAllOptions o = Ok (map (fun kv => [fst kv]) o). Proof. reflexivity. Qed.
+  Lemma X_all o : X EAllOptions o = Ok (map (fun kv => [fst kv]) o). Proof. reflexivity. Qed.
+End Eqs.
+
+Section EqsE.
+  Variable u : N -> list value -> cres.
+  Variable rfuel : nat.
+  Notation ev := (eval unit nc_find nc_store cfg_nc u rfuel (fun _ _ => true)).
+  Notation va := (validate unit nc_find nc_store cfg_nc u rfuel (fun _ _ => true)).
+  Local Notation U l := (l unit nc_find nc_store cfg_nc u rfuel (fun _ _ => true)) (only parsing).
+  Local Notation E e o := (rs (ev e o)) (only parsing).
+  Local Notation V e o := (rs (va e o)) (only parsing).
+
+  Lemma E_value v o : E (EValue v) o = Ok v. Proof. reflexivity. Qed.
+  Lemma E_apply a b o :
+    E (EApply a b) o = wrapr (bindr (E a o) (fun x => bindr (E b o) (fun f => rs (call_value unit u f x)))).
+  Proof. rewrite (U eval_EApply). apply rs_wrap_ext. apply rs_bind_ext. intros x. now apply rs_bind_ext. Qed.
+  Lemma E_bind src tbl dflt o :
+    E (EBind src tbl dflt) o =
+      wrapr (bindr (E src o) (fun x => pickr x tbl (fun b => E b o) (dfltr dflt (fun d => E d o) (CUser 0) false))).
+  Proof.
+    rewrite (U eval_EBind). apply rs_wrap_ext. apply rs_bind_ext. intros x.
+    apply rs_pick_ext; [reflexivity|destruct dflt; reflexivity].
+  Qed.
+  Lemma E_switch disp tbl dflt o :
+    E (ESwitch disp tbl dflt) o =
+      wrapr (bindr (dispr (E disp o) (is_some dflt)) (fun dv => switch_sel dv tbl dflt (fun e => E e o) CSwitch)).
+  Proof.
+    rewrite (U eval_ESwitch). apply rs_wrap_ext. apply rs_bind_ext2; [apply rs_dispatch|]. intros [k|]; cbn [switch_sel].
+    - destruct (negb (hashable k)); [reflexivity|]. apply rs_pick_ext; [reflexivity|destruct dflt; reflexivity].
+    - destruct dflt; reflexivity.
+  Qed.
+  Lemma E_case disp cases dflt o :
+    E (ECase disp cases dflt) o =
+      wrapr (bindr (E disp o) (fun x => bindr (case_sel u rfuel x o cases) (fun s => case_res s dflt (fun e => E e o)))).
+  Proof.
+    rewrite ev_case. apply rs_wrap_ext. apply rs_bind_ext. intros x.
+    rewrite rs_case_go. destruct (case_sel u rfuel x o cases) as [[r|]|]; cbn [bindr case_res]; try reflexivity.
+    apply rs_dflt_or.
+  Qed.
+  Lemma E_coalesce ms o : E (ECoalesce ms) o = wrapr (coalr (fun m => V m o) (fun m => E m o) ms None).
+  Proof. rewrite ev_coalesce. apply rs_wrap_ext. apply rs_coal_go. Qed.
+  Lemma E_iter es o : E (EIter es) o = wrapr (bindr (rs (iter_go u rfuel o es)) (fun vs => Ok (VT T_ITER vs))).
+  Proof. rewrite ev_iter. apply rs_wrap_ext. now apply rs_bind_ext. Qed.
+  Definition call_tail (pa : bool) (fv : value) (av kv : list value) : res value :=
+    if pa then match fv with VF fid pre post => Ok (VF fid (pre ++ av) (post ++ kv)) | _ => Err CUnmodelled false end
+    else rs (call_value_n unit u fv (av ++ kv)).
+  Lemma E_call pa f args kwargs o :
+    E (ECall pa f args kwargs) o =
+      wrapr (bindr (E f o) (fun fv => bindr (mapr (fun x => E x o) args) (fun av =>
+             bindr (mapr (fun x => E x o) kwargs) (fun kv => call_tail pa fv av kv)))).
+  Proof.
+    rewrite (U eval_ECall). apply rs_wrap_ext. apply rs_bind_ext. intros fv.
+    apply rs_bind_ext2; [now apply rs_mapM_ext|]. intros av.
+    apply rs_bind_ext2; [now apply rs_mapM_ext|]. intros kv.
+    unfold call_tail. destruct pa; [destruct fv; reflexivity|reflexivity].
+  Qed.
+  Definition effr (o : dict) (v : value) (eff : expr) : res unit :=
+    bindr (E eff o) (fun f => bindr (rs (call_value unit u f v)) (fun _ => Ok tt)).
+  Lemma E_comp e effs o :
+    E (EComp e effs) o =
+      wrapr (bindr (E e o) (fun v =>
+        bindr (if effects_opt_off o then Ok tt else iterr (effr o v) effs) (fun _ => Ok v))).
+  Proof.
+    rewrite (U eval_EComp). apply rs_wrap_ext. apply rs_bind_ext. intros v.
+    apply rs_bind_ext2; [|reflexivity]. destruct (effects_opt_off o); [reflexivity|].
+    apply rs_iterM_ext. intros eff. unfold effr. apply rs_bind_ext. intros f. now apply rs_bind_ext.
+  Qed.
+  Lemma E_pipe steps o :
+    E (EPipe steps) o = wrapr (bindr (mapr (fun x => E x o) steps) (fun fs => Ok (VF B_COMPOSE (rev fs) []))).
+  Proof. rewrite (U eval_EPipe). apply rs_wrap_ext. apply rs_bind_ext2; [now apply rs_mapM_ext|reflexivity]. Qed.
+  Lemma E_all o : E EAllOptions o = wrapr (allr rfuel o).
+  Proof. rewrite (U eval_EAllOptions). apply rs_wrap_ext, rs_all_options. Qed.
+End EqsE.
+
+(** ** Part 8: successful evaluations yield values without deferred failures (no lazy iterables
+    in the fragment; user code does not fabricate deferred failures). *)
+Section CallsOk.
+  Variable bad : cause -> bool.
+  Variable u : N -> list value -> cres.
+  Notation vg := (vgood bad).
+  Notation vsg := (vsgood bad).
+  Hypothesis Hu_ok : forall f args v, vsg args = true -> u f args = COk v -> vg v = true.
+
+  Lemma call_value_ok f : forall x v, vg f = true -> vg x = true -> rs (call_value unit u f x) = Ok v -> vg v = true.
+  Proof.
+    induction f using value_ind'; intros x v Hf Hx; try discriminate.
+    rewrite call_value_VF. cbn [vgood] in Hf. apply andb_prop in Hf as [Hpre Hpost].
+    destruct (N.eqb f B_COMPOSE).
+    - clear Hpost H0. revert x Hx. induction pre as [|g pre IH]; intros x Hx.
+      + cbn [compose_go]. rewrite rs_ret. intros E. now inversion E; subst.
+      + cbn [compose_go]. rewrite rs_bind. cbn [forallb] in Hpre. apply andb_prop in Hpre as [Hg Hpre].
+        inversion H; subst. intros E. apply bindr_ok in E as [y [Ey E]].
+        apply (IH H3 Hpre y (H2 x y Hg Hx Ey) E).
+    - apply call_fun_ok; [exact Hu_ok|]. unfold vsgood. rewrite !forallb_app. cbn [forallb]. now rewrite Hpre, Hx, Hpost.
+  Qed.
+  Lemma call_value_n_ok f args v :
+    vg f = true -> vsg args = true -> rs (call_value_n unit u f args) = Ok v -> vg v = true.
+  Proof.
+    intros Hf Ha. destruct f; try discriminate. cbn [call_value_n]. destruct (N.eqb f B_COMPOSE); [discriminate|].
+    cbn [vgood] in Hf. apply andb_prop in Hf as [Hpre Hpost].
+    apply call_fun_ok; [exact Hu_ok|]. unfold vsgood in *. rewrite !forallb_app. now rewrite Hpre, Ha, Hpost.
+  Qed.
+End CallsOk.
+
+Definition clean_u (u : N -> list value -> cres) : Prop :=
+  forall f args v, vsgood (fun _ => true) args = true -> u f args = COk v -> vclean v = true.
+
+Lemma vclean_deep_err v : vclean v = true -> deep_err v = None.
+Proof.
+  intros H. destruct (deep_err v) as [c|] eqn:D; [|reflexivity].
+  pose proof (deep_err_good (fun _ => true) v H c D). discriminate.
+Qed.
+Lemma vsclean_first_err l : vsgood (fun _ => true) l = true -> first_err l = None.
+Proof.
+  intros H. destruct (first_err l) as [c|] eqn:D; [|reflexivity].
+  pose proof (first_err_good (fun _ => true) l H c D). discriminate.
+Qed.
+
+(** the fragment: no bare lazy iterable (list()/tuple() of an Iter is in), no Template, no Map *)
+Definition pC : fopts :=
+  {| f_coalesce := true; f_lazy := false; f_template := false; f_effects := true; f_dom := true;
+     f_domdflt := true; f_presets := true; f_partialbind := true; f_alloptions := true; f_domexpr := true; f_untyped := true |}.
+
+Section Clean.
+  Variable u : N -> list value -> cres.
+  Variable rfuel : nat.
+  Hypothesis Hclean : clean_u u.
+  Notation ev := (eval unit nc_find nc_store cfg_nc u rfuel (fun _ _ => true)).
+  Notation va := (validate unit nc_find nc_store cfg_nc u rfuel (fun _ _ => true)).
+  Local Notation E e o := (rs (ev e o)) (only parsing).
+  Local Notation V e o := (rs (va e o)) (only parsing).
+  Notation vsc := (vsgood (fun _ => true)).
+
+  Definition cleanQ (e : expr) : Prop := forall o v, E e o = Ok v -> vclean v = true.
+
+  (** an Iter consumed at once by list()/tuple(): success means every element was evaluated *)
+  Lemma iter_all_ok o es : Forall cleanQ es -> forall vs,
+    rs (iter_go u rfuel o es) = Ok vs -> first_err vs = None ->
+    vsc vs = true /\ forall x, In x es -> exists v, E x o = Ok v.
+  Proof.
+    induction es as [|x es IH]; intros HQ vs Hvs Hf.
+    - inversion Hvs; subst. split; [reflexivity|intros ? []].
+    - inversion HQ; subst. rewrite rs_iter_cons in Hvs.
+      destruct (E x o) as [v|c ee] eqn:Ex; cbn [bindr] in Hvs.
+      + pose proof (H1 o v Ex) as Hv. rewrite (vclean_deep_err v Hv) in Hvs. cbn [is_some] in Hvs.
+        destruct (rs (iter_go u rfuel o es)) as [vs'|c ee] eqn:Ei; cbn [bindr catchr] in Hvs.
+        * inversion Hvs; subst.
+          assert (Hf' : first_err vs' = None) by (destruct v; try exact Hf; discriminate).
+          destruct (IH H2 vs' eq_refl Hf') as [Hc Hall]. split.
+          -- unfold vsgood, vclean in *. cbn [forallb]. now rewrite Hv, Hc.
+          -- intros y [<-|Hy]; [now exists v|now apply Hall].
+        * destruct (unmodb c); [discriminate|]. inversion Hvs; subst. discriminate.
+      + cbn [catchr] in Hvs. destruct (unmodb c); [discriminate|]. inversion Hvs; subst. discriminate.
+  Qed.
+
+  Lemma forced_inv es b o v :
+    b = B_LIST \/ b = B_TUPLE -> Forall cleanQ es ->
+    E (EApply (EIter es) (EValue (VF b [] []))) o = Ok v ->
+    vclean v = true /\ forall x, In x es -> exists vx, E x o = Ok vx.
+  Proof.
+    intros Hb HQ H. rewrite E_apply in H. apply (proj1 (wrapr_ok _ _ _)) in H.
+    apply bindr_ok in H as [it [Hit H]]. rewrite E_value in H. cbn [bindr] in H.
+    rewrite E_iter in Hit. apply (proj1 (wrapr_ok _ _ _)) in Hit. apply bindr_ok in Hit as [vs [Hvs Hit]].
+    inversion Hit; subst it. rewrite call_value_VF in H.
+    assert (Hnc : N.eqb b B_COMPOSE = false) by (destruct Hb as [-> | ->]; reflexivity).
+    rewrite Hnc in H. cbn [app] in H. rewrite rs_call_fun in H.
+    assert (Hel : elements_of (VT T_ITER vs) = Some vs) by reflexivity.
+    assert (Hcore : forall t, bindr (rs (force_elems unit (VT T_ITER vs))) (fun els => Ok (VT t els)) = Ok v ->
+                      vclean v = true /\ forall x, In x es -> exists vx, E x o = Ok vx).
+    { intros t Ht. apply bindr_ok in Ht as [els [He Ht]]. rewrite rs_force_elems, Hel in He.
+      destruct (first_err vs) eqn:Hf; [discriminate|]. inversion He; subst els. inversion Ht; subst v.
+      destruct (iter_all_ok o es HQ vs Hvs Hf) as [Hc Hall]. split; [exact Hc|exact Hall]. }
+    destruct Hb as [-> | ->]; cbn in H; eapply Hcore; exact H.
+  Qed.
+
+  Lemma mapr_clean o es : Forall cleanQ es -> forall vs, mapr (fun x => E x o) es = Ok vs -> vsc vs = true.
+  Proof.
+    induction es as [|x es IH]; intros HQ vs H; [now inversion H|].
+    inversion HQ as [|? ? Hx HQ']; subst. cbn [mapr] in H. apply bindr_ok in H as [v [Hv H]]. apply bindr_ok in H as [vs' [Hvs H]].
+    inversion H; subst. pose proof (Hx o v Hv) as Cv. pose proof (IH HQ' vs' Hvs) as Cs.
+    unfold vsgood, vclean in *. cbn [forallb]. now rewrite Cv, Cs.
+  Qed.
+  Lemma mapr_all_ok {A} (f : A -> res value) l vs : mapr f l = Ok vs -> forall x, In x l -> exists v, f x = Ok v.
+  Proof.
+    revert vs. induction l as [|a l IH]; intros vs H x Hx; [destruct Hx|].
+    cbn [mapr] in H. apply bindr_ok in H as [v [Hv H]]. apply bindr_ok in H as [vs' [Hvs H]].
+    destruct Hx as [<-|Hx]; [now exists v|apply (IH vs' Hvs x Hx)].
+  Qed.
+
+  Lemma coalr_ok_inv {A} (v : expr -> res unit) (act : expr -> res A) ms : forall last a,
+    coalr v act ms last = Ok a -> exists m, In m ms /\ v m = Ok tt /\ act m = Ok a.
+  Proof.
+    induction ms as [|m ms IH]; intros last a H.
+    - destruct last as [[c ee]|]; discriminate.
+    - cbn [coalr] in H. apply catchr_ok in H as [H|[c [ee [_ [_ H]]]]].
+      + apply bindr_ok in H as [[] [Hv Ha]]. exists m. split; [now left|auto].
+      + destruct ee; [|discriminate]. destruct (IH _ _ H) as [m' [Hin Hm']]. exists m'. split; [now right|exact Hm'].
+  Qed.
+
+  Lemma clean_value v : vclean v = true -> cleanQ (EValue v).
+  Proof. intros Hc o w H. rewrite E_value in H. now inversion H; subst. Qed.
+  Lemma clean_option k dflt dom : Popt cleanQ dflt -> cleanQ (EOption k dflt dom).
+  Proof.
+    intros Hd o v H. rewrite rs_ev_option in H. apply (proj1 (wrapr_ok _ _ _)) in H.
+    rewrite rs_option_eval in H. destruct (lookup k (JObj o)) as [raw| |]; [| |discriminate].
+    - apply bindr_ok in H as [j [_ H]]. apply dom_check_value in H. now subst.
+    - destruct dflt as [d|]; [|discriminate]. apply bindr_ok in H as [w [Hw H]].
+      apply dom_check_value in H. subst. apply (Hd o w Hw).
+  Qed.
+  Lemma clean_apply src fn : cleanQ src -> cleanQ fn -> cleanQ (EApply src fn).
+  Proof.
+    intros Hs Hf o v H. rewrite E_apply in H. apply (proj1 (wrapr_ok _ _ _)) in H.
+    apply bindr_ok in H as [x [Hx H]]. apply bindr_ok in H as [f [Hff H]].
+    apply (call_value_ok (fun _ => true) u Hclean f x v (Hf o f Hff) (Hs o x Hx) H).
+  Qed.
+  Lemma clean_forced es b : b = B_LIST \/ b = B_TUPLE -> Forall cleanQ es -> cleanQ (EApply (EIter es) (EValue (VF b [] []))).
+  Proof. intros Hb HQ o v H. apply (forced_inv es b o v Hb HQ H). Qed.
+  Lemma clean_bind src tbl dflt :
+    Forall (fun ve => cleanQ (snd ve)) tbl -> Popt cleanQ dflt -> cleanQ (EBind src tbl dflt).
+  Proof.
+    intros Ht Hd o v H. rewrite E_bind in H. apply (proj1 (wrapr_ok _ _ _)) in H.
+    apply bindr_ok in H as [x [_ H]]. unfold pickr in H. destruct (assoc_v x tbl) as [b|] eqn:Ea.
+    - destruct (assoc_v_In _ _ _ Ea) as [w Hin]. apply (Forall_snd_In cleanQ tbl w b Ht Hin o v H).
+    - destruct dflt as [d|]; [apply (Hd o v H)|discriminate].
+  Qed.
+  Lemma clean_switch disp tbl dflt :
+    Forall (fun ve => cleanQ (snd ve)) tbl -> Popt cleanQ dflt -> cleanQ (ESwitch disp tbl dflt).
+  Proof.
+    intros Ht Hd o v H. rewrite E_switch in H. apply (proj1 (wrapr_ok _ _ _)) in H.
+    apply bindr_ok in H as [dv [_ H]]. destruct dv as [k|]; cbn [switch_sel] in H.
+    - destruct (negb (hashable k)); [discriminate|]. unfold pickr in H. destruct (assoc_v k tbl) as [b|] eqn:Ea.
+      + destruct (assoc_v_In _ _ _ Ea) as [w Hin]. apply (Forall_snd_In cleanQ tbl w b Ht Hin o v H).
+      + destruct dflt as [d|]; [apply (Hd o v H)|discriminate].
+    - destruct dflt as [d|]; [apply (Hd o v H)|discriminate].
+  Qed.
+  Lemma clean_case disp cases dflt :
+    Forall (fun cr => cleanQ (snd cr)) cases -> Popt cleanQ dflt -> cleanQ (ECase disp cases dflt).
+  Proof.
+    intros Hc Hd o v H. rewrite E_case in H. apply (proj1 (wrapr_ok _ _ _)) in H.
+    apply bindr_ok in H as [x [_ H]]. apply bindr_ok in H as [s [Hs H]]. destruct s as [r|]; cbn [case_res] in H.
+    - destruct (case_sel_In _ _ _ _ _ _ Hs) as [c Hin]. rewrite Forall_forall in Hc. apply (Hc (c, r) Hin o v H).
+    - destruct dflt as [d|]; [apply (Hd o v H)|discriminate].
+  Qed.
+  Lemma clean_coalesce ms : Forall cleanQ ms -> cleanQ (ECoalesce ms).
+  Proof.
+    intros HQ o v H. rewrite E_coalesce in H. apply (proj1 (wrapr_ok _ _ _)) in H.
+    destruct (coalr_ok_inv _ _ ms None v H) as [m [Hin [_ Hm]]]. rewrite Forall_forall in HQ. apply (HQ m Hin o v Hm).
+  Qed.
+  Lemma clean_with force pr e : cleanQ e -> cleanQ (EWith force pr e).
+  Proof. intros He o v H. rewrite rs_ev_with in H. apply (He _ v H). Qed.
+  Lemma clean_cached c e : cleanQ e -> cleanQ (ECached c e).
+  Proof. intros He o v H. rewrite rs_ev_cached in H. apply (He o v H). Qed.
+  Lemma clean_logged e : cleanQ e -> cleanQ (ELogged e).
+  Proof. intros He o v H. rewrite rs_ev_logged in H. apply (He o v H). Qed.
+  Lemma clean_call pa f args kwargs : cleanQ f -> Forall cleanQ args -> Forall cleanQ kwargs -> cleanQ (ECall pa f args kwargs).
+  Proof.
+    intros Hf Ha Hk o v H. rewrite E_call in H. apply (proj1 (wrapr_ok _ _ _)) in H.
+    apply bindr_ok in H as [fv [Hfv H]]. apply bindr_ok in H as [av [Hav H]]. apply bindr_ok in H as [kv [Hkv H]].
+    pose proof (Hf o fv Hfv) as Cf. pose proof (mapr_clean o args Ha av Hav) as Ca. pose proof (mapr_clean o kwargs Hk kv Hkv) as Ck.
+    unfold call_tail in H. destruct pa.
+    - destruct fv; try discriminate. inversion H; subst. unfold vclean in *. cbn [vgood] in *.
+      apply andb_prop in Cf as [Cp Cq]. fold (vsgood (fun _ => true) (pre ++ av)). fold (vsgood (fun _ => true) (post ++ kv)).
+      rewrite !vsgood_app. unfold vsgood in *. now rewrite Cp, Cq, Ca, Ck.
+    - apply (call_value_n_ok (fun _ => true) u Hclean fv (av ++ kv) v Cf); [|exact H]. rewrite vsgood_app. now rewrite Ca, Ck.
+  Qed.
+  Lemma clean_comp e effs : cleanQ e -> cleanQ (EComp e effs).
+  Proof.
+    intros He o v H. rewrite E_comp in H. apply (proj1 (wrapr_ok _ _ _)) in H.
+    apply bindr_ok in H as [w [Hw H]]. apply bindr_ok in H as [[] [_ H]]. inversion H; subst. apply (He o v Hw).
+  Qed.
+  Lemma clean_pipe steps : Forall cleanQ steps -> cleanQ (EPipe steps).
+  Proof.
+    intros Hs o v H. rewrite E_pipe in H. apply (proj1 (wrapr_ok _ _ _)) in H.
+    apply bindr_ok in H as [fs [Hfs H]]. inversion H; subst. unfold vclean. cbn [vgood forallb]. rewrite andb_true_r.
+    apply vsgood_rev. apply (mapr_clean o steps Hs fs Hfs).
+  Qed.
+  Lemma clean_all : cleanQ EAllOptions.
+  Proof.
+    intros o v H. rewrite E_all in H. apply (proj1 (wrapr_ok _ _ _)) in H. unfold allr in H.
+    apply bindr_ok in H as [j [_ H]]. now inversion H; subst.
+  Qed.
+
+  Theorem ev_clean e : fragP pC e = true -> cleanQ e.
+  Proof.
+    apply (fragP_ind pC cleanQ).
+    - exact clean_value.
+    - intros k dflt dom Hd _. now apply clean_option.
+    - intros src fn Hs Hf _. now apply clean_apply.
+    - intros es b _. apply clean_forced.
+    - intros src tbl dflt _ Ht Hd _. now apply clean_bind.
+    - intros disp tbl dflt _ Ht Hd. now apply clean_switch.
+    - intros disp cases dflt _ Hc Hd _. apply clean_case; [|exact Hd].
+      eapply Forall_impl; [|exact Hc]. intros a [_ Ha]. exact Ha.
+    - intros ms _. apply clean_coalesce.
+    - intros es Hl. discriminate Hl.
+    - intros force pr e0 _. apply clean_with.
+    - exact clean_cached.
+    - intros pa f args kwargs Hf Ha Hk _. now apply clean_call.
+    - intros s ps Ht. discriminate Ht.
+    - intros e0 effs _ He _ _. now apply clean_comp.
+    - exact clean_logged.
+    - exact clean_pipe.
+    - intros _. exact clean_all.
+  Qed.
+End Clean.
+
+(** ** Part 9: validate(), keys() and explain() run user code only inside the evaluation of a
+    sub-expression in chooser position.  For EVERY expression, dictionary and user code. *)
+Definition is_call (e : event) : bool := match e with EvCall _ _ => true | _ => false end.
+
+Definition only {A} (P : event -> Prop) (m : MU A) : Prop :=
+  forall ev, In ev (lg m) -> is_call ev = true -> P ev.
+Definition quiet {A} (m : MU A) : Prop := only (fun _ => False) m.
+
+Lemma only_mono A (P Q : event -> Prop) (m : MU A) : (forall ev, P ev -> Q ev) -> only P m -> only Q m.
+Proof. intros H Hm ev Hin Hc. apply H, (Hm ev Hin Hc). Qed.
+Lemma quiet_only A P (m : MU A) : quiet m -> only P m.
+Proof. apply only_mono. intros ev []. Qed.
+Lemma only_ret A P (a : A) : only P (ret unit a). Proof. intros ev []. Qed.
+Lemma only_fail A P c ee : only P (@fail unit A c ee). Proof. intros ev []. Qed.
+Lemma only_emit P e : is_call e = false -> only P (emit unit e).
+Proof. intros H ev [<-|[]] Hc. congruence. Qed.
+Lemma only_bind A B P (m : MU A) (f : A -> MU B) :
+  only P m -> (forall a, rs m = Ok a -> only P (f a)) -> only P (bind unit m f).
+Proof.
+  intros Hm Hf ev Hin Hc. rewrite lg_bind in Hin. apply in_app_or in Hin as [Hin|Hin]; [apply (Hm ev Hin Hc)|].
+  destruct (rs m) as [a|c ee] eqn:E; [apply (Hf a eq_refl ev Hin Hc)|destruct Hin].
+Qed.
+Lemma only_catch A P (m : MU A) h :
+  only P m -> (forall c ee, rs m = Err c ee -> only P (h c ee)) -> only P (catch unit m h).
+Proof.
+  intros Hm Hh ev Hin Hc. rewrite lg_catch in Hin. apply in_app_or in Hin as [Hin|Hin]; [apply (Hm ev Hin Hc)|].
+  destruct (rs m) as [a|c ee] eqn:E; [destruct Hin|]. destruct (unmodb c); [destruct Hin|apply (Hh c ee eq_refl ev Hin Hc)].
+Qed.
+Lemma only_wrap A P (m : MU A) : only P m -> only P (wrap_eval unit m).
+Proof. intros Hm ev Hin Hc. rewrite lg_wrap in Hin. apply (Hm ev Hin Hc). Qed.
+Lemma only_iterM A P (f : A -> MU unit) l : (forall a, In a l -> only P (f a)) -> only P (iterM unit f l).
+Proof.
+  induction l as [|a l IH]; intros H; [apply only_ret|]. rewrite iterM_cons.
+  apply only_bind; [apply H; now left|]. intros _ _. apply IH. intros b Hb. apply H. now right.
+Qed.
+Lemma only_unionM A P (f : A -> MU (list key)) l : (forall a, In a l -> only P (f a)) -> only P (unionM unit f l).
+Proof.
+  induction l as [|a l IH]; intros H; [apply only_ret|]. rewrite unionM_cons.
+  apply only_bind; [apply H; now left|]. intros x _. apply only_bind; [|intros; apply only_ret].
+  apply IH. intros b Hb. apply H. now right.
+Qed.
+Lemma only_mapM A B P (f : A -> MU B) l : (forall a, In a l -> only P (f a)) -> only P (mapM unit f l).
+Proof.
+  induction l as [|a l IH]; intros H; [apply only_ret|]. rewrite mapM_cons.
+  apply only_bind; [apply H; now left|]. intros x _. apply only_bind; [|intros; apply only_ret].
+  apply IH. intros b Hb. apply H. now right.
+Qed.
+Lemma only_pick A P x (onhit : expr -> MU A) onmiss tbl :
+  (forall v b, In (v, b) tbl -> only P (onhit b)) -> only P onmiss -> only P (pick x onhit onmiss tbl).
+Proof.
+  intros Hh Hm. rewrite pick_assoc. destruct (assoc_v x tbl) as [b|] eqn:E; [|exact Hm].
+  destruct (assoc_v_In _ _ _ E) as [v Hin]. apply (Hh v b Hin).
+Qed.
+
+Lemma quiet_rd k o : quiet (rd unit k o).
+Proof. unfold rd. apply only_bind; [now apply only_emit|intros; apply only_ret]. Qed.
+Lemma quiet_emit_reads l o : quiet (emit_reads unit l o).
+Proof. unfold emit_reads. apply only_iterM. intros k _. now apply only_emit. Qed.
+Lemma quiet_of_rres r : quiet (of_rres unit r).
+Proof. destruct r; intros ev []. Qed.
+Lemma quiet_force v : quiet (force_elems unit v).
+Proof. unfold force_elems. destruct (elements_of v) as [els|]; [destruct (first_err els)|]; intros ev []. Qed.
+Lemma quiet_ref_keys f strict o : forall k, quiet (ref_keys unit f strict o k).
+Proof.
+  induction f as [|f IH]; intros k; [apply only_fail|]. cbn [ref_keys].
+  apply only_bind; [apply quiet_rd|]. intros r _. destruct r as [raw| |]; [|destruct strict; [apply only_fail|apply only_ret]|apply only_fail].
+  destruct raw; try apply only_ret. destruct (existsb _ s); [apply only_fail|].
+  apply only_bind; [|intros; apply only_ret]. apply only_unionM. intros k' _. apply IH.
+Qed.
+Lemma quiet_filter_preset f p o m l : quiet (filter_preset unit f p o m l).
+Proof.
+  induction l as [|k l IH]; [apply only_ret|]. cbn [filter_preset].
+  destruct (preset_drops f p o m k); [|apply only_fail]. apply only_bind; [exact IH|intros; apply only_ret].
+Qed.
+Lemma quiet_row_options row : quiet (row_options unit row).
+Proof. unfold row_options. destruct (option_set _ []); [destruct (_ && _)|]; intros ev []. Qed.
+
+Definition opt_list (d : option expr) : list expr := match d with Some x => [x] | None => [] end.
+
+(** sub-expressions in chooser position: evaluated by validate/keys/explain to choose a branch
+    (bind source, switch dispatch, case dispatch and conditions, map iterables) — and an Option
+    that declares a domain (a present value is evaluated to be checked against it) *)
+Definition choosers (e : expr) : list expr :=
+  match e with
+  | EBind src _ _ => [src]
+  | ESwitch disp _ _ => [disp]
+  | ECase disp cases _ => disp :: map fst cases
+  | EMap _ its => map snd its
+  | EOption _ _ (Some _) => [e]
+  | _ => []
+  end.
+(** the sub-expressions validate/keys/explain descend into *)
+Definition subs (e : expr) : list expr :=
+  match e with
+  | EValue _ | EAllOptions => []
+  | EOption _ dflt _ => opt_list dflt
+  | EApply a b => [a; b]
+  | EBind src tbl dflt => src :: map snd tbl ++ opt_list dflt
+  | ESwitch disp tbl dflt => disp :: map snd tbl ++ opt_list dflt
+  | ECase disp cases dflt => disp :: map snd cases ++ opt_list dflt
+  | ECoalesce ms => ms
+  | EIter es => es
+  | EMap e its => e :: map snd its
+  | EWith _ _ e => [e]
+  | ECached _ e => [e]
+  | ECall _ f args kwargs => f :: args ++ kwargs
+  | ETemplate _ ps => map snd ps
+  | EComp e effs => e :: effs
+  | ELogged e => [e]
+  | EPipe steps => steps
+  end.
+
+Section Choosers.
+  Variable u : N -> list value -> cres.
+  Variable rfuel : nat.
+  Notation ev := (eval unit nc_find nc_store cfg_nc u rfuel (fun _ _ => true)).
+  Notation va := (validate unit nc_find nc_store cfg_nc u rfuel (fun _ _ => true)).
+  Notation ks := (keys unit nc_find nc_store cfg_nc u rfuel (fun _ _ => true)).
+  Notation ex := (explain unit nc_find nc_store cfg_nc u rfuel (fun _ _ => true)).
+  Local Notation U l := (l unit nc_find nc_store cfg_nc u rfuel (fun _ _ => true)) (only parsing).
+
+  (** user code [ev] ran …  *)
+  Inductive allowed : expr -> event -> Prop :=
+  | al_here e c o evt : In c (choosers e) -> In evt (lg (ev c o)) -> allowed e evt
+      (* … inside the evaluation of a chooser-position sub-expression of [e] *)
+  | al_cond disp cases dflt c r o p x evt :
+      In (c, r) cases -> rs (ev c o) = Ok p -> In evt (lg (call_value unit u p x)) ->
+      allowed (ECase disp cases dflt) evt
+      (* … as the application of a case condition to the dispatch value *)
+  | al_sub e e' evt : In e' (subs e) -> allowed e' evt -> allowed e evt.
+      (* … for one of these reasons, in a sub-expression *)
+
+  Lemma only_chooser e c o : In c (choosers e) -> only (allowed e) (ev c o).
+  Proof. intros Hc evt Hin _. apply (al_here e c o evt Hc Hin). Qed.
+  Lemma only_sub {A} e e' (m : MU A) : In e' (subs e) -> only (allowed e') m -> only (allowed e) m.
+  Proof. intros Hs. apply only_mono. intros evt. now apply al_sub. Qed.
+
+  Definition runsQ (e : expr) : Prop :=
+    forall o, only (allowed e) (va e o) /\ only (allowed e) (ks e o) /\ only (allowed e) (ex e o).
+
+  Lemma in_opt d : In d (opt_list (Some d)). Proof. now left. Qed.
+
+  Lemma runs_value v : runsQ (EValue v).
+  Proof. intros o. repeat split; apply only_ret. Qed.
+
+  Lemma quiet_option_found k dflt o raw :
+    lookup k (JObj o) = Found raw -> quiet (option_eval unit u rfuel (fun x => ev x o) k dflt None o).
+  Proof.
+    intros Hl. unfold option_eval. apply only_bind; [apply quiet_rd|]. intros r Hr. rewrite rs_rd in Hr. inversion Hr; subst r.
+    rewrite Hl. apply only_bind; [|intros; apply only_ret].
+    apply only_bind; [apply quiet_emit_reads|]. intros _ _. apply only_bind; [apply quiet_of_rres|intros; apply only_ret].
+  Qed.
+
+  Lemma runs_option k dflt dom : Popt runsQ dflt -> runsQ (EOption k dflt dom).
+  Proof.
+    intros Hd o.
+    assert (Hsub : forall (A : Type) (m : MU A) d, dflt = Some d -> only (allowed d) m -> only (allowed (EOption k dflt dom)) m).
+    { intros A m d ->. apply (only_sub _ d). apply in_opt. }
+    split; [|split].
+    - rewrite (U validate_EOption). apply only_bind; [apply quiet_only, quiet_rd|]. intros r Hr.
+      rewrite rs_rd in Hr. inversion Hr; subst r. destruct (lookup k (JObj o)) as [raw| |] eqn:El; [| |apply only_fail].
+      + apply only_bind; [|intros; apply only_ret]. destruct dom as [de|].
+        * change (wrap_eval unit (option_eval unit u rfuel (fun x => ev x o) k dflt (Some de) o)) with (ev (EOption k dflt (Some de)) o).
+          apply only_chooser. now left.
+        * apply only_wrap, quiet_only, (quiet_option_found k dflt o raw El).
+      + destruct dflt as [d|]; [|apply only_fail]. apply (Hsub _ _ d eq_refl), (proj1 (Hd o)).
+    - rewrite (U keys_EOption). apply only_bind; [apply quiet_only, quiet_rd|]. intros r _.
+      destruct r as [raw| |]; [| |apply only_fail].
+      + destruct raw; try apply only_ret. destruct (existsb _ s); [apply only_fail|].
+        apply only_bind; [|intros; apply only_ret]. apply only_unionM. intros k' _. apply quiet_only, quiet_ref_keys.
+      + destruct dflt as [d|]; [|apply only_fail]. apply (Hsub _ _ d eq_refl), (proj1 (proj2 (Hd o))).
+    - rewrite (U explain_EOption). apply only_bind; [apply quiet_only, quiet_rd|]. intros r _.
+      destruct r as [raw| |]; [| |apply only_fail].
+      + destruct raw; try apply only_ret. destruct (existsb _ s); [apply only_fail|].
+        apply only_bind; [|intros; apply only_ret]. apply only_unionM. intros k' _. apply quiet_only, quiet_ref_keys.
+      + destruct dflt as [d|]; [|apply only_ret]. apply (Hsub _ _ d eq_refl), (proj2 (proj2 (Hd o))).
+  Qed.
+
+  Lemma runs_apply a b : runsQ a -> runsQ b -> runsQ (EApply a b).
+  Proof.
+    intros Ha Hb o. destruct (Ha o) as [Va [Ka Xa]]. destruct (Hb o) as [Vb [Kb Xb]].
+    assert (Sa : In a (subs (EApply a b))) by now left. assert (Sb : In b (subs (EApply a b))) by (right; now left).
+    split; [|split].
+    - rewrite (U validate_EApply). apply only_bind; [apply (only_sub _ a _ Sa Va)|intros; apply (only_sub _ b _ Sb Vb)].
+    - rewrite (U keys_EApply). apply only_bind; [apply (only_sub _ a _ Sa Ka)|intros].
+      apply only_bind; [apply (only_sub _ b _ Sb Kb)|intros; apply only_ret].
+    - rewrite (U explain_EApply). apply only_bind; [apply (only_sub _ a _ Sa Xa)|intros].
+      apply only_bind; [apply (only_sub _ b _ Sb Xb)|intros; apply only_ret].
+  Qed.
+
+  Lemma sub_tbl {A} (x : expr) (tbl : list (A * expr)) dflt v b : In (v, b) tbl -> In b (x :: map snd tbl ++ opt_list dflt).
+  Proof. intros H. right. apply in_or_app. left. apply (in_map snd tbl (v, b) H). Qed.
+  Lemma sub_dflt (x : expr) l d : In d (x :: l ++ opt_list (Some d)).
+  Proof. right. apply in_or_app. right. now left. Qed.
+
+  Lemma runs_bind src tbl dflt :
+    runsQ src -> Forall (fun ve => runsQ (snd ve)) tbl -> Popt runsQ dflt -> runsQ (EBind src tbl dflt).
+  Proof.
+    intros Hs Ht Hd o. pose (e := EBind src tbl dflt).
+    assert (Ssrc : In src (subs e)) by now left.
+    assert (Csrc : only (allowed e) (ev src o)) by (apply only_chooser; now left).
+    assert (Hpick : forall (A : Type) (m : expr -> MU A) x, (forall b, runsQ b -> only (allowed b) (m b)) ->
+              only (allowed e) (pick x m (match dflt with Some d => m d | None => fail unit (CUser 0) false end) tbl)).
+    { intros A m x Hm. apply only_pick.
+      - intros v b Hin. apply (only_sub e b _ (sub_tbl src tbl dflt v b Hin)). apply Hm, (Forall_snd_In runsQ tbl v b Ht Hin).
+      - destruct dflt as [d|]; [|apply only_fail]. apply (only_sub e d _ (sub_dflt src _ d)). apply Hm, Hd. }
+    split; [|split].
+    - rewrite (U validate_EBind). apply only_bind; [apply (only_sub e src _ Ssrc), (proj1 (Hs o))|]. intros _ _.
+      apply only_bind; [exact Csrc|]. intros x _. apply (Hpick _ (fun b => va b o)). intros b Hb. apply (proj1 (Hb o)).
+    - rewrite (U keys_EBind). apply only_bind; [apply (only_sub e src _ Ssrc), (proj1 (proj2 (Hs o)))|]. intros a _.
+      apply only_bind; [exact Csrc|]. intros x _. apply only_bind; [|intros; apply only_ret].
+      apply (Hpick _ (fun b => ks b o)). intros b Hb. apply (proj1 (proj2 (Hb o))).
+    - rewrite (U explain_EBind). apply only_catch; [|intros c [|] _; apply only_fail].
+      apply only_bind; [apply (only_sub e src _ Ssrc), (proj2 (proj2 (Hs o)))|]. intros a _.
+      apply only_bind; [exact Csrc|]. intros x _. apply only_bind; [|intros; apply only_ret].
+      apply (Hpick _ (fun b => ex b o)). intros b Hb. apply (proj2 (proj2 (Hb o))).
+  Qed.
+
+  Lemma only_dispatch P (m : MU value) hd : only P m -> only P (dispatch_value unit m hd).
+  Proof.
+    intros Hm. unfold dispatch_value. apply only_catch.
+    - apply only_bind; [exact Hm|intros; apply only_ret].
+    - intros c ee _. destruct (ee && hd); [apply only_ret|apply only_fail].
+  Qed.
+
+  Lemma runs_switch disp tbl dflt :
+    runsQ disp -> Forall (fun ve => runsQ (snd ve)) tbl -> Popt runsQ dflt -> runsQ (ESwitch disp tbl dflt).
+  Proof.
+    intros Hs Ht Hd o. pose (e := ESwitch disp tbl dflt).
+    assert (Sd : In disp (subs e)) by now left.
+    assert (Cd : only (allowed e) (dispatch_value unit (ev disp o) (is_some dflt))).
+    { apply only_dispatch. apply only_chooser. now left. }
+    assert (Hdf : forall (A : Type) (m : expr -> MU A) c ee, (forall b, runsQ b -> only (allowed b) (m b)) ->
+              only (allowed e) (match dflt with Some d => m d | None => fail unit c ee end)).
+    { intros A m c ee Hm. destruct dflt as [d|]; [|apply only_fail]. apply (only_sub e d _ (sub_dflt disp _ d)). apply Hm, Hd. }
+    assert (Hpick : forall (A : Type) (m : expr -> MU A) x c, (forall b, runsQ b -> only (allowed b) (m b)) ->
+              only (allowed e) (pick x m (match dflt with Some d => m d | None => fail unit c true end) tbl)).
+    { intros A m x c Hm. apply only_pick; [|now apply Hdf].
+      intros v b Hin. apply (only_sub e b _ (sub_tbl disp tbl dflt v b Hin)). apply Hm, (Forall_snd_In runsQ tbl v b Ht Hin). }
+    split; [|split].
+    - rewrite (U validate_ESwitch). apply only_bind; [exact Cd|]. intros [k|] _.
+      + destruct (negb (hashable k)); [apply only_fail|]. apply (Hpick _ (fun b => va b o)). intros b Hb. apply (proj1 (Hb o)).
+      + apply (Hdf _ (fun b => va b o)). intros b Hb. apply (proj1 (Hb o)).
+    - rewrite (U keys_ESwitch). apply only_bind; [exact Cd|]. intros [k|] _.
+      + destruct (negb (hashable k)); [apply only_fail|]. apply only_bind.
+        * apply (Hpick _ (fun b => ks b o)). intros b Hb. apply (proj1 (proj2 (Hb o))).
+        * intros a _. apply only_bind; [apply (only_sub e disp _ Sd), (proj1 (proj2 (Hs o)))|intros; apply only_ret].
+      + apply (Hdf _ (fun b => ks b o)). intros b Hb. apply (proj1 (proj2 (Hb o))).
+    - rewrite (U explain_ESwitch). apply only_bind.
+      { apply only_catch; [exact Cd|intros c [|] _; apply only_fail]. }
+      intros [k|] _.
+      + destruct (negb (hashable k)); [apply only_fail|]. apply only_bind.
+        * apply (Hpick _ (fun b => ex b o)). intros b Hb. apply (proj2 (proj2 (Hb o))).
+        * intros a _. apply only_bind; [apply (only_sub e disp _ Sd), (proj2 (proj2 (Hs o)))|intros; apply only_ret].
+      + apply (Hdf _ (fun b => ex b o)). intros b Hb. apply (proj2 (proj2 (Hb o))).
+  Qed.
+
+  Lemma only_case_go {A} disp cases dflt x o (onres : expr -> MU A) dm :
+    (forall c r, In (c, r) cases -> only (allowed (ECase disp cases dflt)) (onres r)) ->
+    only (allowed (ECase disp cases dflt)) dm ->
+    forall cs, incl cs cases -> only (allowed (ECase disp cases dflt)) (case_go u rfuel x o onres dm cs).
+  Proof.
+    intros Hr Hdm. induction cs as [|[c r] cs IH]; intros Hi; [exact Hdm|].
+    assert (Hin : In (c, r) cases) by (apply Hi; now left).
+    cbn [case_go]. apply only_bind.
+    - apply only_chooser. right. apply (in_map fst cases (c, r) Hin).
+    - intros p Hp. apply only_bind.
+      + intros evt Hev _. apply (al_cond disp cases dflt c r o p x evt Hin Hp Hev).
+      + intros b _. destruct (truthy b); [apply (Hr c r Hin)|]. apply IH. intros y Hy. apply Hi. now right.
+  Qed.
+
+  Lemma runs_case disp cases dflt :
+    runsQ disp -> Forall (fun cr => runsQ (fst cr) /\ runsQ (snd cr)) cases -> Popt runsQ dflt -> runsQ (ECase disp cases dflt).
+  Proof.
+    intros Hs Hc Hd o. pose (e := ECase disp cases dflt). rewrite Forall_forall in Hc.
+    assert (Sd : In disp (subs e)) by now left.
+    assert (Cd : only (allowed e) (ev disp o)) by (apply only_chooser; now left).
+    assert (Hgo : forall (A : Type) (m : expr -> MU A) x c ee, (forall b, runsQ b -> only (allowed b) (m b)) ->
+              only (allowed e) (case_go u rfuel x o m (dflt_or dflt m c ee) cases)).
+    { intros A m x c ee Hm. apply only_case_go; [| |apply incl_refl].
+      - intros c0 r Hin. apply (only_sub e r _ (sub_tbl disp cases dflt c0 r Hin)). apply Hm, (proj2 (Hc (c0, r) Hin)).
+      - unfold dflt_or. destruct dflt as [d|]; [|apply only_fail]. apply (only_sub e d _ (sub_dflt disp _ d)). apply Hm, Hd. }
+    split; [|split].
+    - rewrite va_case. apply only_bind; [apply (only_sub e disp _ Sd), (proj1 (Hs o))|]. intros _ _.
+      apply only_bind; [exact Cd|]. intros x _. apply (Hgo _ (fun r => va r o)). intros b Hb. apply (proj1 (Hb o)).
+    - rewrite ks_case. apply only_bind; [apply (only_sub e disp _ Sd), (proj1 (proj2 (Hs o)))|]. intros a _.
+      apply only_bind; [exact Cd|]. intros x _. apply only_bind; [|intros; apply only_ret].
+      apply (Hgo _ (fun r => ks r o)). intros b Hb. apply (proj1 (proj2 (Hb o))).
+    - rewrite ex_case. apply only_catch; [|intros c [|] _; apply only_fail].
+      apply only_bind; [apply (only_sub e disp _ Sd), (proj2 (proj2 (Hs o)))|]. intros a _.
+      apply only_bind; [exact Cd|]. intros x _. apply only_bind; [|intros; apply only_ret].
+      apply (Hgo _ (fun r => ex r o)). intros b Hb. apply (proj2 (proj2 (Hb o))).
+  Qed.
+
+  Lemma only_coal_go {A} P o (act : expr -> MU A) ms :
+    (forall m, In m ms -> only P (va m o) /\ only P (act m)) ->
+    forall last, only P (coal_go u rfuel o act ms last).
+  Proof.
+    induction ms as [|m ms IH]; intros H last.
+    - destruct last as [[c ee]|]; apply only_fail.
+    - cbn [coal_go]. destruct (H m (or_introl eq_refl)) as [Hv Ha]. apply only_catch.
+      + apply only_bind; [exact Hv|intros; exact Ha].
+      + intros c [|] _; [|apply only_fail]. apply IH. intros m' Hm'. apply H. now right.
+  Qed.
+
+  Definition last_go (o : dict) : list expr -> MU (list key) :=
+    fix last (ms : list expr) : MU (list key) :=
+      match ms with
+      | [] => fail unit CUnmodelled false
+      | [m] => ex m o
+      | _ :: ms' => last ms'
+      end.
+  Lemma ex_coalesce ms o :
+    ex (ECoalesce ms) o =
+      catch unit (coal_go u rfuel o (fun m => ex m o) ms None)
+            (fun c ee => if ee then last_go o ms else fail unit c ee).
+  Proof. reflexivity. Qed.
+
+  Lemma runs_coalesce ms : Forall runsQ ms -> runsQ (ECoalesce ms).
+  Proof.
+    intros HQ o. pose (e := ECoalesce ms). rewrite Forall_forall in HQ.
+    assert (Hm : forall (A : Type) (act : expr -> MU A), (forall b, runsQ b -> only (allowed b) (act b)) ->
+              forall m, In m ms -> only (allowed e) (va m o) /\ only (allowed e) (act m)).
+    { intros A act Ha m Hin. split; apply (only_sub e m _ Hin); [apply (proj1 (HQ m Hin o))|apply Ha, (HQ m Hin)]. }
+    split; [|split].
+    - rewrite va_coalesce. apply only_coal_go. apply (Hm _ (fun m => va m o)). intros b Hb. apply (proj1 (Hb o)).
+    - rewrite ks_coalesce. apply only_coal_go. apply (Hm _ (fun m => ks m o)). intros b Hb. apply (proj1 (proj2 (Hb o))).
+    - rewrite ex_coalesce. apply only_catch.
+      + apply only_coal_go. apply (Hm _ (fun m => ex m o)). intros b Hb. apply (proj2 (proj2 (Hb o))).
+      + intros c [|] _; [|apply only_fail].
+        assert (G : forall l, incl l ms -> only (allowed e) (last_go o l)).
+        { induction l as [|m [|m' l] IH]; intros Hi; [apply only_fail| |].
+          - cbn [last_go]. apply (only_sub e m _ (Hi m (or_introl eq_refl))), (proj2 (proj2 (HQ m (Hi m (or_introl eq_refl)) o))).
+          - apply IH. intros y Hy. apply Hi. now right. }
+        apply G, incl_refl.
+  Qed.
+
+  Lemma runs_iter es : Forall runsQ es -> runsQ (EIter es).
+  Proof.
+    intros HQ o. rewrite Forall_forall in HQ. split; [|split].
+    - rewrite (U validate_EIter). apply only_iterM. intros x Hx. apply (only_sub (EIter es) x _ Hx), (proj1 (HQ x Hx o)).
+    - rewrite (U keys_EIter). apply only_unionM. intros x Hx. apply (only_sub (EIter es) x _ Hx), (proj1 (proj2 (HQ x Hx o))).
+    - rewrite (U explain_EIter). apply only_unionM. intros x Hx. apply (only_sub (EIter es) x _ Hx), (proj2 (proj2 (HQ x Hx o))).
+  Qed.
+
+  Lemma runs_map e0 its : runsQ e0 -> Forall (fun ke => runsQ (snd ke)) its -> runsQ (EMap e0 its).
+  Proof.
+    intros He Hi o. pose (e := EMap e0 its). rewrite Forall_forall in Hi.
+    assert (Se : In e0 (subs e)) by now left.
+    assert (Sit : forall kv, In kv its -> In (snd kv) (subs e)) by (intros kv H; right; apply (in_map snd its kv H)).
+    assert (Rows : only (allowed e) (map_rows unit (fun x => ev x o) its)).
+    { unfold map_rows. apply only_bind; [|intros; apply only_ret]. apply only_mapM. intros kv Hkv.
+      apply only_bind; [apply only_chooser, (in_map snd its kv Hkv)|intros; apply quiet_only, quiet_force]. }
+    assert (Hits : forall (m : expr -> MU (list key)), (forall b, runsQ b -> only (allowed b) (m b)) ->
+              only (allowed e) (unionM unit (fun kv : key * expr => m (snd kv)) its)).
+    { intros m Hm. apply only_unionM. intros kv Hkv. apply (only_sub e (snd kv) _ (Sit kv Hkv)). apply Hm, (Hi kv Hkv). }
+    assert (Hrow : forall (m : expr -> dict -> MU (list key)), (forall d, only (allowed e0) (m e0 d)) -> forall rows,
+              only (allowed e) (unionM unit (fun row => bind unit (row_options unit row) (fun os =>
+                 let mixed := with_opts true os o in bind unit (m e0 mixed) (fun l => filter_preset unit true os o mixed l))) rows)).
+    { intros m Hm rows. apply only_unionM. intros row _. apply only_bind; [apply quiet_only, quiet_row_options|]. intros os _.
+      cbv zeta. apply only_bind; [apply (only_sub e e0 _ Se), Hm|intros; apply quiet_only, quiet_filter_preset]. }
+    split; [|split].
+    - rewrite (U validate_EMap). apply only_bind; [exact Rows|]. intros rows _. apply only_iterM. intros row _.
+      apply only_bind; [apply quiet_only, quiet_row_options|]. intros os _. apply (only_sub e e0 _ Se), (proj1 (He _)).
+    - rewrite (U keys_EMap). apply only_bind; [exact Rows|]. intros rows _.
+      apply only_bind; [apply (Hrow (fun x d => ks x d)); intros d; apply (proj1 (proj2 (He d)))|]. intros a _.
+      apply only_bind; [|intros; apply only_ret]. apply (Hits (fun x => ks x o)). intros b Hb. apply (proj1 (proj2 (Hb o))).
+    - rewrite (U explain_EMap). apply only_catch.
+      + apply only_bind; [exact Rows|]. intros rows _.
+        apply only_bind; [apply (Hrow (fun x d => ex x d)); intros d; apply (proj2 (proj2 (He d)))|]. intros a _.
+        apply only_bind; [|intros; apply only_ret]. apply (Hits (fun x => ex x o)). intros b Hb. apply (proj2 (proj2 (Hb o))).
+      + intros c [|] _; [|apply only_fail]. apply only_bind; [apply (only_sub e e0 _ Se), (proj2 (proj2 (He o)))|]. intros a _.
+        apply only_bind; [|intros; apply only_ret]. apply (Hits (fun x => ex x o)). intros b Hb. apply (proj2 (proj2 (Hb o))).
+  Qed.
+
+  Lemma runs_with f p e0 : runsQ e0 -> runsQ (EWith f p e0).
+  Proof.
+    intros He o. assert (Se : In e0 (subs (EWith f p e0))) by now left. split; [|split].
+    - rewrite (U validate_EWith). apply (only_sub _ e0 _ Se), (proj1 (He _)).
+    - rewrite (U keys_EWith). cbv zeta. apply only_bind; [apply (only_sub _ e0 _ Se), (proj1 (proj2 (He _)))|intros; apply quiet_only, quiet_filter_preset].
+    - rewrite (U explain_EWith). cbv zeta. apply only_bind; [apply (only_sub _ e0 _ Se), (proj2 (proj2 (He _)))|intros; apply quiet_only, quiet_filter_preset].
+  Qed.
+  Lemma runs_cached c e0 : runsQ e0 -> runsQ (ECached c e0).
+  Proof.
+    intros He o. assert (Se : In e0 (subs (ECached c e0))) by now left. split; [|split].
+    - rewrite va_cached. apply (only_sub _ e0 _ Se), (proj1 (He _)).
+    - change (ks (ECached c e0) o) with (ks e0 o). apply (only_sub _ e0 _ Se), (proj1 (proj2 (He _))).
+    - change (ex (ECached c e0) o) with (ex e0 o). apply (only_sub _ e0 _ Se), (proj2 (proj2 (He _))).
+  Qed.
+  Lemma runs_logged e0 : runsQ e0 -> runsQ (ELogged e0).
+  Proof.
+    intros He o. assert (Se : In e0 (subs (ELogged e0))) by now left. split; [|split].
+    - change (va (ELogged e0) o) with (va e0 o). apply (only_sub _ e0 _ Se), (proj1 (He _)).
+    - change (ks (ELogged e0) o) with (ks e0 o). apply (only_sub _ e0 _ Se), (proj1 (proj2 (He _))).
+    - change (ex (ELogged e0) o) with (ex e0 o). apply (only_sub _ e0 _ Se), (proj2 (proj2 (He _))).
+  Qed.
+
+  Lemma runs_call pa f args kwargs : runsQ f -> Forall runsQ args -> Forall runsQ kwargs -> runsQ (ECall pa f args kwargs).
+  Proof.
+    intros Hf Ha Hk o. pose (e := ECall pa f args kwargs). rewrite Forall_forall in Ha, Hk.
+    assert (Sf : In f (subs e)) by now left.
+    assert (Sa : forall x, In x args -> In x (subs e)) by (intros x H; right; apply in_or_app; now left).
+    assert (Sk : forall x, In x kwargs -> In x (subs e)) by (intros x H; right; apply in_or_app; now right).
+    split; [|split].
+    - rewrite (U validate_ECall). apply only_bind; [apply (only_sub e f _ Sf), (proj1 (Hf o))|]. intros _ _.
+      apply only_bind; [apply only_iterM; intros x Hx; apply (only_sub e x _ (Sa x Hx)), (proj1 (Ha x Hx o))|]. intros _ _.
+      apply only_iterM; intros x Hx; apply (only_sub e x _ (Sk x Hx)), (proj1 (Hk x Hx o)).
+    - rewrite (U keys_ECall). apply only_bind; [apply (only_sub e f _ Sf), (proj1 (proj2 (Hf o)))|]. intros a _.
+      apply only_bind; [apply only_unionM; intros x Hx; apply (only_sub e x _ (Sa x Hx)), (proj1 (proj2 (Ha x Hx o)))|]. intros b _.
+      apply only_bind; [apply only_unionM; intros x Hx; apply (only_sub e x _ (Sk x Hx)), (proj1 (proj2 (Hk x Hx o)))|intros; apply only_ret].
+    - rewrite (U explain_ECall). apply only_bind; [apply (only_sub e f _ Sf), (proj2 (proj2 (Hf o)))|]. intros a _.
+      apply only_bind; [apply only_unionM; intros x Hx; apply (only_sub e x _ (Sa x Hx)), (proj2 (proj2 (Ha x Hx o)))|]. intros b _.
+      apply only_bind; [apply only_unionM; intros x Hx; apply (only_sub e x _ (Sk x Hx)), (proj2 (proj2 (Hk x Hx o)))|intros; apply only_ret].
+  Qed.
+
+  Lemma runs_template s ps : Forall (fun pe => runsQ (snd pe)) ps -> runsQ (ETemplate s ps).
+  Proof.
+    intros HQ o. pose (e := ETemplate s ps). rewrite Forall_forall in HQ.
+    assert (Sp : forall pe, In pe ps -> In (snd pe) (subs e)) by (intros pe H; apply (in_map snd ps pe H)).
+    split; [|split].
+    - rewrite (U validate_ETemplate). apply only_bind.
+      + apply only_iterM. intros pe Hpe. apply (only_sub e (snd pe) _ (Sp pe Hpe)), (proj1 (HQ pe Hpe o)).
+      + intros _ _. apply only_iterM. intros k _. apply only_bind; [apply quiet_only, quiet_rd|]. intros r _.
+        destruct r as [raw| |]; [|apply only_fail|apply only_fail].
+        apply only_bind; [apply quiet_only, quiet_emit_reads|]. intros _ _.
+        apply only_bind; [apply only_wrap, quiet_only, quiet_of_rres|intros; apply only_ret].
+    - rewrite (U keys_ETemplate). apply only_bind.
+      + apply only_unionM. intros pe Hpe. apply (only_sub e (snd pe) _ (Sp pe Hpe)), (proj1 (proj2 (HQ pe Hpe o))).
+      + intros a _. apply only_bind; [|intros; apply only_ret]. apply only_unionM. intros k _. apply quiet_only, quiet_ref_keys.
+    - rewrite (U explain_ETemplate). apply only_bind.
+      + apply only_unionM. intros pe Hpe. apply (only_sub e (snd pe) _ (Sp pe Hpe)), (proj2 (proj2 (HQ pe Hpe o))).
+      + intros a _. apply only_bind; [|intros; apply only_ret]. apply only_unionM. intros k _. apply quiet_only, quiet_ref_keys.
+  Qed.
+
+  Lemma runs_comp e0 effs : runsQ e0 -> Forall runsQ effs -> runsQ (EComp e0 effs).
+  Proof.
+    intros He Hf o. pose (e := EComp e0 effs). rewrite Forall_forall in Hf.
+    assert (Se : In e0 (subs e)) by now left.
+    assert (Sf : forall x, In x effs -> In x (subs e)) by (intros x H; now right).
+    split; [|split].
+    - rewrite (U validate_EComp). apply only_bind; [apply (only_sub e e0 _ Se), (proj1 (He o))|]. intros _ _.
+      destruct (effects_opt_off o); [apply only_ret|]. apply only_iterM. intros x Hx. apply (only_sub e x _ (Sf x Hx)), (proj1 (Hf x Hx o)).
+    - change (ks e o) with (ks e0 o). apply (only_sub e e0 _ Se), (proj1 (proj2 (He o))).
+    - rewrite (U explain_EComp). apply only_bind; [apply (only_sub e e0 _ Se), (proj2 (proj2 (He o)))|]. intros a _.
+      destruct (effects_opt_off o); [apply only_ret|]. apply only_bind; [|intros; apply only_ret].
+      apply only_unionM. intros x Hx. apply (only_sub e x _ (Sf x Hx)), (proj2 (proj2 (Hf x Hx o))).
+  Qed.
+
+  Lemma runs_pipe steps : Forall runsQ steps -> runsQ (EPipe steps).
+  Proof.
+    intros HQ o. rewrite Forall_forall in HQ. split; [|split].
+    - rewrite (U validate_EPipe). apply only_iterM. intros x Hx. apply (only_sub (EPipe steps) x _ Hx), (proj1 (HQ x Hx o)).
+    - rewrite (U keys_EPipe). apply only_unionM. intros x Hx. apply (only_sub (EPipe steps) x _ Hx), (proj1 (proj2 (HQ x Hx o))).
+    - rewrite (U explain_EPipe). apply only_unionM. intros x Hx. apply (only_sub (EPipe steps) x _ Hx), (proj2 (proj2 (HQ x Hx o))).
+  Qed.
+
+  Lemma runs_all : runsQ EAllOptions.
+  Proof.
+    intros o. split; [|split].
+    - rewrite (U validate_EAllOptions). apply only_bind; [|intros; apply only_ret]. apply only_wrap.
+      unfold all_options_eval. apply only_bind; [now apply only_emit|]. intros _ _.
+      apply only_bind; [apply quiet_only, quiet_of_rres|intros; apply only_ret].
+    - rewrite (U keys_EAllOptions). apply only_bind; [now apply only_emit|intros; apply only_ret].
+    - rewrite (U explain_EAllOptions). apply only_bind; [now apply only_emit|intros; apply only_ret].
+  Qed.
+
+  Theorem runs_only_choosers e : runsQ e.
+  Proof.
+    induction e using expr_ind'.
+    - apply runs_value.
+    - now apply runs_option.
+    - now apply runs_apply.
+    - now apply runs_bind.
+    - now apply runs_switch.
+    - now apply runs_case.
+    - now apply runs_coalesce.
+    - now apply runs_iter.
+    - now apply runs_map.
+    - now apply runs_with.
+    - now apply runs_cached.
+    - now apply runs_call.
+    - now apply runs_template.
+    - now apply runs_comp.
+    - now apply runs_logged.
+    - now apply runs_pipe.
+    - apply runs_all.
+  Qed.
+End Choosers.
+
+(** *** on the observed reference functions; a chooser-free expression runs no user code *)
+Inductive reach : expr -> expr -> Prop :=
+| reach_refl e : reach e e
+| reach_step e e' e'' : In e' (subs e) -> reach e' e'' -> reach e e''.
+
+Lemma allowed_has_chooser u rfuel e evt : allowed u rfuel e evt -> exists e', reach e e' /\ choosers e' <> [].
+Proof.
+  induction 1 as [e c o evt Hc _|disp cases dflt c r o p x evt _ _ _|e e' evt Hs _ IH].
+  - exists e. split; [constructor|]. intros E. rewrite E in Hc. destruct Hc.
+  - exists (ECase disp cases dflt). split; [constructor|discriminate].
+  - destruct IH as [e'' [Hr Hc]]. exists e''. split; [now apply (reach_step e e' e'')|exact Hc].
+Qed.
+
+Lemma validate_nc_lg u fuel e o :
+  snd (validate_nc u fuel e o) = lg (validate unit nc_find nc_store cfg_nc u fuel (fun _ _ => true) e o).
+Proof. unfold validate_nc, lg. destruct (validate _ _ _ _ _ _ _ e o tt) as [[r s] l]. reflexivity. Qed.
+Lemma keys_nc_lg u fuel e o :
+  snd (keys_nc u fuel e o) = lg (keys unit nc_find nc_store cfg_nc u fuel (fun _ _ => true) e o).
+Proof. unfold keys_nc, lg. destruct (keys _ _ _ _ _ _ _ e o tt) as [[r s] l]. reflexivity. Qed.
+Lemma explain_nc_lg u fuel e o :
+  snd (explain_nc u fuel e o) = lg (explain unit nc_find nc_store cfg_nc u fuel (fun _ _ => true) e o).
+Proof. unfold explain_nc, lg. destruct (explain _ _ _ _ _ _ _ e o tt) as [[r s] l]. reflexivity. Qed.
+
+Theorem runs_only_choosers_nc u fuel e o evt :
+  is_call evt = true ->
+  In evt (snd (validate_nc u fuel e o)) \/ In evt (snd (keys_nc u fuel e o)) \/ In evt (snd (explain_nc u fuel e o)) ->
+  allowed u fuel e evt.
+Proof.
+  intros Hc H. rewrite validate_nc_lg, keys_nc_lg, explain_nc_lg in H.
+  destruct (runs_only_choosers u fuel e o) as [Hv [Hk Hx]].
+  destruct H as [H|[H|H]]; [apply (Hv evt H Hc)|apply (Hk evt H Hc)|apply (Hx evt H Hc)].
+Qed.
+
+Theorem chooser_free_runs_nothing_nc u fuel e o evt :
+  (forall e', reach e e' -> choosers e' = []) ->
+  In evt (snd (validate_nc u fuel e o)) \/ In evt (snd (keys_nc u fuel e o)) \/ In evt (snd (explain_nc u fuel e o)) ->
+  is_call evt = false.
+Proof.
+  intros Hfree H. destruct (is_call evt) eqn:Hc; [|reflexivity]. exfalso.
+  destruct (allowed_has_chooser u fuel e evt (runs_only_choosers_nc u fuel e o evt Hc H)) as [e' [Hr Hne]].
+  apply Hne, (Hfree e' Hr).
+Qed.
